@@ -12,38 +12,65 @@ from ..dataflow import Def
 from ..fold import Folder, RegexConst, single_class
 from ..loader import AnalysisError, FuncInfo, dotted, norm
 from ..report import Ctx
-from ._c14_helpers import JOIN, Atom, Prov, Unit, empty_test, helper_atoms, nested_defs, own_nodes, parse_atom
+from ._c14_helpers import J_, JOIN, T_, X_, Atom, Nulls, Prov, Summary, Unit, ancestor_conds, empty_test, helper_atoms, implied, join_kind, nested_defs, own_nodes, parse_atom, position
 
 LEVEL_TEXT = (
     "Static decision of structural clauses of C14 on /repo's current source (POSIX path semantics). (R14.1) in "
-    "security.safe_join every value appended to the joined list is an element of the untrusted *pathnames (the loop "
-    "ranges over all of them); on every path of the iteration it has passed, after posixpath.normpath (the empty "
+    "security.safe_join every component that enters the result is an element of the untrusted *pathnames (all of "
+    "them are traversed); on every path on which it enters it has passed, after posixpath.normpath (the empty "
     "string excepted), reject tests that together cover the three escaping shapes of a normalised POSIX path - "
     "starts with '/', equals '..', starts with '../' - plus the alternative-separator test; for the two '..' shapes the "
-    "tested variable is the normalised one (reaching definitions; a leading '/' or a separator character is unaffected "
+    "tested value is the normalised one (reaching definitions; a leading '/' or a separator character is unaffected "
     "by normpath and may be tested on either), each reject edge ends in `return None`, and the result is a join of the "
-    "trusted directory with the survivors only. The reject tests are read through their structure, not their spelling: "
-    "an or-chain, a flag variable assigned in the same iteration, or a module-level predicate helper called with the "
+    "trusted directory (or its '' -> '.' replacement) with the survivors only. Decided on what is computed, not on its "
+    "spelling: the components may be *pathnames or a sequence derived from it element by element (a comprehension "
+    "that normalises, list / tuple copies; a slice or a filtered comprehension no longer has all of them); the "
+    "traversal a for loop over it, over enumerate(...) or over range(len(...)) with an indexed read; the components "
+    "enter the result by growing a list that is joined (append / extend / += / `[*L, x]` / `L + [x]`), by joining "
+    "incrementally (`r = join(r, x)`) or as the whole sequence (`join(directory, *components)`) after a completed "
+    "check of every component - a checking traversal that can only be left through its exhausted head, or an "
+    "any(...) / all(...) test over the sequence; a reject edge may reach `return None` through a flag set on it and "
+    "tested later (constants are propagated along the path). Steps of the iteration may live in module-level helpers: a "
+    "normaliser (returns normpath of its argument, the empty string excepted, on every path) counts as the normpath "
+    "step; a component filter (returns None or its argument) is judged like one iteration - the four shapes before "
+    "each `return <component>`, reject edges ending in its `return None` - and the caller must test its result for "
+    "None before the component enters the result, the None edge ending in `return None`. The reject tests are read through their structure: "
+    "an or-chain, a flag variable assigned in the same iteration, a module-level predicate helper called with the "
     "component, summarised one level on the helper's CFG (a predicate on the parameter counts when its edge leads only to "
     "constant returns of one truthiness and no path to the helper's exit avoids it - `return a or b`, sequential early "
-    "returns, an explicit loop over the alternative separators and the negated polarity give the same summary); "
-    "`normpath unless empty` may be a statement or a conditional expression / `x and normpath(x)`. (R14.2) every filesystem sink (open, os.path.isfile/getmtime/getsize/"
-    "exists/isdir, os.stat, send_file, open_resource, and one-level pass-through helpers such as _opener) in "
-    "utils.send_from_directory and SharedDataMiddleware receives a value built only from trusted configuration and "
-    "safe_join(<trusted base>, ...) results - never the raw request-derived name - and a safe_join result keeps that "
-    "standing only while it is copied, selected (conditional expression / or) or joined by os.path.join / posixpath.join "
-    "with trusted operands: any other call, method call, concatenation, formatting or slicing applied to it AFTER the "
-    "containment check (unquote, normpath, expandvars, replace ...) may re-open the escape and makes the value "
-    "untrusted for every sink it reaches. (R14.3) every safe_join result is "
-    "tested for None before any other use and the None edge ends in NotFound / a (None, None) refusal; "
-    "SharedDataMiddleware.__call__ calls the opener only under `is not None` and otherwise falls through to the wrapped "
-    "app. (R14.4) the value returned by utils.secure_filename has passed a regex deletion whose kept alphabet is ASCII "
-    "without '/', '\\\\' and whitespace, and a strip() of a set containing '.' is applied after every operation that "
-    "can delete characters; later edits only add non-dot leading characters from that alphabet. Not decided: "
-    "posixpath.normpath's contract ('..' survives only as leading segments - trusted), symlinks, Windows drive / UNC "
-    "forms, the `directory == ''` -> '.' substitution, that SharedDataMiddleware hands loaders only the suffix after the "
-    "export prefix (not needed for containment), the NFKD / ASCII-fold quality of secure_filename, and idempotence of "
-    "secure_filename as a law (it follows from the output being a fixed point of each step; not checked)."
+    "returns, an explicit loop over the alternative separators and the negated polarity give the same summary), "
+    "startswith with a tuple, `x[:n] == c`, `x.partition('/')[0] == '..'` / `x.split('/')[0] == '..'` (first segment); "
+    "`normpath unless empty` may be a statement or a conditional expression / `x and normpath(x)`. (R14.2) every "
+    "filesystem sink (open, os.path.isfile/getmtime/getsize/exists/isdir, os.stat, send_file, open_resource, and "
+    "pass-through helpers such as _opener) reached from utils.send_from_directory and SharedDataMiddleware - their "
+    "nested callables and closures (every parameter request-derived, free variables looked up in the enclosing "
+    "function) and the same-module functions / same-class methods they call, whose parameters get the join of what "
+    "the call sites (functools.partial included) pass - receives a value built only from trusted configuration and "
+    "safe_join(<trusted base>, ...) results, never the raw request-derived name. The origin of a value is a set over the "
+    "arms of conditional expressions and and/or chains and over reaching definitions, each arm judged under the "
+    "condition that selects it (the condition itself does not flow into the value; an arm that is a name known to be "
+    "None / falsy there carries no path; a followed helper's call stands for what it returns). A safe_join result keeps "
+    "its standing only while it is copied, selected or joined by os.path.join / posixpath.join with trusted operands: "
+    "any other call, method call, concatenation, formatting or slicing applied to it AFTER the containment check "
+    "(unquote, normpath, expandvars, replace ...) may re-open the escape and makes the value untrusted for every sink "
+    "it reaches. (R14.3) the None of a refusing safe_join call never arrives where the result is used as a value: for "
+    "every use, every path from a definition that may hold the None (through copies, conditional arms, walrus "
+    "bindings, a helper that hands the result or its refusal on, a parameter a caller binds to it) passes the "
+    "not-None edge of a test about that value - `is None` / `is not None` / truthiness / isinstance, merged or split "
+    "conditions, a flag computed from it, a conditional expression or `x is not None and f(x)` around the use, a test "
+    "of the copied original - and the None edge of each such test ends (while the variable stays None) in NotFound / "
+    "a returned None / (None, None), also when that value or exception was bound to a name first; "
+    "SharedDataMiddleware calls the opener that came out of a loader only where it cannot be None (also when the call "
+    "sits in a followed helper that received it) and the None edge of the deciding test falls through to the "
+    "wrapped app. (R14.4) the value returned by utils.secure_filename has passed a character filter - a regex "
+    "substitution (method or re.sub spelling) or a `''.join(ch for ch in x if <keep>)` comprehension - whose kept "
+    "alphabet is ASCII without '/', '\\\\' and whitespace, and a strip() of a set containing '.' is applied after every "
+    "operation that can delete characters; later edits only add non-dot leading characters from that alphabet. Not "
+    "decided: posixpath.normpath's contract ('..' survives only as leading segments - trusted), symlinks, Windows "
+    "drive / UNC forms, that SharedDataMiddleware hands loaders only the suffix after the export prefix (not needed "
+    "for containment), that no component is dropped on a non-refusing path of safe_join's loop (a functional, not a "
+    "containment property), the NFKD / ASCII-fold quality of secure_filename, and idempotence of secure_filename as "
+    "a law (it follows from the output being a fixed point of each step; not checked)."
 )
 TRUSTED = [
     "CPython ast and re._parser",
@@ -116,6 +143,8 @@ def _value_form(u: Unit, e: ast.AST, d: Def, depth: int) -> tuple[set[Def], set[
     if isinstance(e, ast.Name):
         return _roots(u, e.id, d.node, depth)
     a = _norm_arg(u, e)
+    if a is None and isinstance(e, ast.Call) and len(e.args) == 1 and not e.keywords and isinstance(e.args[0], ast.Name) and _is_normaliser(u, e):
+        a = e.args[0]  # a module-level helper that returns normpath(<its argument>), the empty string excepted
     if a is not None:
         r, n, _ = _roots(u, a.id, d.node, depth)
         return r, n | {d}, set()
@@ -145,6 +174,52 @@ def _value_form(u: Unit, e: ast.AST, d: Def, depth: int) -> tuple[set[Def], set[
     return None
 
 
+def _module_helper(u: Unit, c: ast.Call) -> FuncInfo | None:
+    """the module-level function of the unit's module that a call `f(...)` runs."""
+    if not isinstance(c.func, ast.Name):
+        return None
+    h = u.module.functions.get(c.func.id)
+    if h is None or u.resolve(c.func) != f"{u.module.name}.{c.func.id}" or h.node is u.node:
+        return None
+    return h
+
+
+def _is_normaliser(u: Unit, c: ast.Call) -> bool:
+    """does the called module-level helper return, on every path, its (single) parameter normalised by
+    posixpath.normpath - the empty string excepted?  (the `normpath unless empty` step extracted into a function)"""
+    h = _module_helper(u, c)
+    if h is None:
+        return False
+    cached = getattr(h, "_c14_normaliser", None)
+    if cached is not None:
+        return cached
+    h._c14_normaliser = False  # type: ignore[attr-defined]  # recursion guard
+    a = h.node.args  # type: ignore[attr-defined]
+    pos = a.posonlyargs + a.args
+    rets = astq.returns_of(h.node)
+    ok = len(pos) == 1 and not a.vararg and not a.kwarg and bool(rets)
+    if ok:
+        hu = Unit(u.repo, h, h.node, h.qualname)
+        pdef = next(d for d in hu.rd.param_defs if d.name == pos[0].arg)
+        for r in rets:
+            rn = hu.cfg.node_of(r)
+            if r.value is None or rn is None:
+                ok = False
+                break
+            f = _value_form(hu, r.value, Def("<return>", "assign", r.value, rn, None, None, r), 1)
+            if f is None or f[0] != {pdef}:
+                ok = False
+                break
+            if f[2]:
+                # the raw parameter may arrive only as the empty string
+                reach = hu.cfg.reach([hu.cfg.entry], avoid_nodes=[d.node for d in f[1] if d.node is not None and d.node is not rn], avoid_edges=_empty_edges(hu, pdef))
+                if f[2] != {pdef} or rn.id in reach:
+                    ok = False
+                    break
+    h._c14_normaliser = ok  # type: ignore[attr-defined]
+    return ok
+
+
 def _empty_edges(u: Unit, root: Def) -> list[tuple[Node, str]]:
     """edges on which the raw loop element (under any name that is a plain copy of it) is known to be ''."""
     out = []
@@ -160,161 +235,594 @@ def _empty_edges(u: Unit, root: Def) -> list[tuple[Node, str]]:
     return out
 
 
-def _safe_join_rule(ctx: Ctx) -> None:
-    repo = ctx.repo
-    fi = repo.func("security.safe_join")
-    u = _unit_of(ctx, fi)
-    fn = fi.node
-    cfg, rd = u.cfg, u.rd
-    if fn.args.vararg is None or not (fn.args.posonlyargs + fn.args.args):
-        raise AnalysisError("safe_join: expected signature (directory, *pathnames)")
-    vararg = fn.args.vararg.arg
-    dirparam = (fn.args.posonlyargs + fn.args.args)[0].arg
+class _Seq(t.NamedTuple):
+    """a sequence of path components derived element by element from *pathnames."""
 
-    def trusted_dir(e: ast.AST, node: Node) -> bool:
-        if not isinstance(e, ast.Name) or e.id != dirparam:
+    all: bool  # every element of *pathnames, in order
+    normal: bool  # every element is normpath(<component>) or the empty string
+    text: str
+
+
+class _Pass(t.NamedTuple):
+    """one traversal of the components: a for loop whose iteration handles one element."""
+
+    loop: ast.For
+    head: Node
+    seq: _Seq
+    roots: frozenset  # the definitions that bind the current element (loop target / `x = seq[i]`)
+
+
+class _SafeJoin:
+    """R14.1 decided on what the function computes, not on how the traversal is spelled.
+
+    * the components: *pathnames, or a sequence built from it element by element (`[normpath(p) if p else p for p
+      in pathnames]`, list(...), tuple(...)); a slice or a filtered comprehension no longer has all of them;
+    * a traversal: `for x in <components>`, `for i, x in enumerate(<components>)`, `for i in range(len(<components>))`
+      with `x = <components>[i]`;
+    * how components reach the result: grown into a list (`L.append(x)`, `L += [x]`, `L.extend([x])`, `L = [*L, x]`,
+      `L = L + [x]`) that is joined, joined incrementally (`r = join(r, x)`), or the whole sequence joined at once
+      (`join(directory, *components)`) after a checking traversal / an `any(...)` / `all(...)` test over it;
+    * the reject tests: see `_atoms_of_test`; a reject edge must end in `return None` - directly, or through a flag
+      that is set on the edge and tested after the loop (constants are propagated along the path)."""
+
+    SHAPES = (("abs", "starts with '/' (absolute)", False), ("dotdot", "equals '..'", True), ("dotdot/", "starts with '../'", True), ("altsep", "contains an alternative separator (Windows hosts)", False))
+
+    def __init__(self, ctx: Ctx, helper: FuncInfo | None = None):
+        self.ctx = ctx
+        self.fi = helper or ctx.repo.func("security.safe_join")
+        self.u = _unit_of(ctx, self.fi)
+        self.fn = self.fi.node
+        self.cfg, self.rd = self.u.cfg, self.u.rd
+        a = self.fn.args
+        if helper is None and (a.vararg is None or not (a.posonlyargs + a.args)):
+            raise AnalysisError("safe_join: expected signature (directory, *pathnames)")
+        self.vararg = a.vararg.arg if a.vararg is not None else None
+        self.dirparam = (a.posonlyargs + a.args)[0].arg if helper is None else None
+        self._filters: dict[int, bool] = {}
+        self.none_rets = [n for n in (self.cfg.node_of(r) for r in astq.returns_of(self.fn) if r.value is None or astq.is_none(r.value)) if n is not None]
+        self.n_atoms = self.n_shapes = self.n_join = self.n_growth = 0
+        self._pass_atoms: dict[int, tuple[list[Atom], list[str], list[str]]] = {}
+
+    # -- values ----------------------------------------------------------------
+    def trusted_dir(self, e: ast.AST, node: Node | None, depth: int = 0) -> bool:
+        """the trusted base directory, possibly with its `"" -> "."` replacement."""
+        if depth > 4 or node is None:
             return False
-        return all(d.kind == "param" or (d.kind == "assign" and isinstance(d.value, ast.Constant) and isinstance(d.value.value, str) and not d.value.value.startswith(("/", ".."))) for d in rd.reaching(node, e.id))
+        if isinstance(e, ast.Constant):
+            return isinstance(e.value, str) and not e.value.startswith(("/", ".."))
+        if isinstance(e, ast.BoolOp) and isinstance(e.op, ast.Or):
+            return all(self.trusted_dir(v, node, depth + 1) for v in e.values)
+        if isinstance(e, ast.IfExp):
+            return self.trusted_dir(e.body, node, depth + 1) and self.trusted_dir(e.orelse, node, depth + 1)
+        if isinstance(e, ast.Name):
+            defs = self.rd.reaching(node, e.id)
+            if not defs:
+                return False
+            for d in defs:
+                if d.kind == "param" and d.name == self.dirparam:
+                    continue
+                if d.kind in ("assign", "walrus") and d.index is None and d.value is not None and d.node is not None and self.trusted_dir(d.value, d.node, depth + 1):
+                    continue
+                return False
+            return True
+        return False
 
-    # ---- result: return None | join(<trusted dir>?, *L)
-    lists: list[tuple[ast.Name, Node]] = []
-    n_join = 0
-    for r in astq.returns_of(fn):
-        rn = cfg.node_of(r)
-        if r.value is None or astq.is_none(r.value):
-            continue
-        v = r.value
-        ok = False
-        fact = norm(v)
-        if isinstance(v, ast.Call) and (u.resolve(v.func) in JOIN) and not v.keywords and v.args and rn is not None:
-            ok = True
-            starred = [a for a in v.args if isinstance(a, ast.Starred)]
-            for i, a in enumerate(v.args):
-                if isinstance(a, ast.Starred):
-                    if isinstance(a.value, ast.Name) and a is starred[0] and len(starred) == 1:
-                        lists.append((a.value, rn))
-                    else:
-                        ok = False
-                elif not (i == 0 and trusted_dir(a, rn)):
-                    ok = False
-                    fact = f"`{norm(a)}` joined without having passed the reject test"
-            if not starred:
-                ok = False
-            n_join += 1
-        elif isinstance(v, ast.Call) and isinstance(v.func, ast.Attribute) and v.func.attr == "join" and isinstance(v.func.value, ast.Constant) and v.func.value.value == "/" and len(v.args) == 1 and isinstance(v.args[0], ast.Name) and rn is not None:
-            ok = True
-            lists.append((v.args[0], rn))
-            n_join += 1
-        ctx.ob("R14.1", "safe_join returns None or the join of the trusted directory with the checked components", ok, fact, fi, r, f"safe_join result {norm(v.func) if isinstance(v, ast.Call) else type(v).__name__}")
-    ctx.floor("R14.1", "joined results", n_join, 1)
-    if not lists:
-        raise AnalysisError("safe_join: no `join(*<list>)` result found (result slot)")
+    def comp_form(self, e: ast.AST, var: str, depth: int = 0) -> str | None:
+        """element expression of a comprehension over the components: 'raw' (the element itself), 'normal'
+        (normpath of it, the empty string excepted) or None (something else)."""
+        if depth > 4:
+            return None
+        if isinstance(e, ast.Name):
+            return "raw" if e.id == var else None
+        if isinstance(e, ast.Constant) and e.value == "":
+            return "normal"
+        a = _norm_arg(self.u, e)
+        if a is not None:
+            return "normal" if a.id == var else None
+        if isinstance(e, ast.BoolOp) and isinstance(e.op, ast.And) and len(e.values) == 2 and isinstance(e.values[0], ast.Name):
+            e = ast.IfExp(test=e.values[0], body=e.values[1], orelse=e.values[0])
+        if isinstance(e, ast.IfExp):
+            emp = empty_test(e.test)
+            out = "normal"
+            for branch, taken in ((e.body, True), (e.orelse, False)):
+                if emp is not None and emp[0].id == var and emp[1] == taken and ((isinstance(branch, ast.Name) and branch.id == var) or (isinstance(branch, ast.Constant) and branch.value == "")):
+                    continue
+                f = self.comp_form(branch, var, depth + 1)
+                if f is None:
+                    return None
+                if f == "raw":
+                    out = "raw"
+            return out
+        return None
 
-    # ---- the list: initial contents and growth sites
-    lnames = {nm.id for nm, _ in lists}
-    for nm, rn in lists:
-        for d in rd.reaching(rn, nm.id):
-            okd = d.kind == "assign" and isinstance(d.value, ast.List) and d.node is not None and all(trusted_dir(e, d.node) for e in d.value.elts)
-            ctx.ob("R14.1", "the joined list starts from the trusted directory only", okd, f"`{norm(d.stmt) if d.stmt is not None else d.kind}`", fi, d.stmt, f"safe_join list init {d.kind}")
-    growth: list[tuple[ast.Call | ast.AST, ast.AST | None]] = []
-    for n in own_nodes(fn):
-        if isinstance(n, ast.Call) and isinstance(n.func, ast.Attribute) and isinstance(n.func.value, ast.Name) and n.func.value.id in lnames and n.func.attr in ("append", "extend", "insert", "__iadd__"):
-            growth.append((n, n.args[0] if n.func.attr == "append" and len(n.args) == 1 else None))
-        elif isinstance(n, ast.AugAssign) and isinstance(n.target, ast.Name) and n.target.id in lnames:
-            growth.append((n, None))
-        elif isinstance(n, ast.Subscript) and isinstance(n.ctx, ast.Store) and isinstance(n.value, ast.Name) and n.value.id in lnames:
-            growth.append((n, None))
-    ctx.floor("R14.1", "append sites of the joined list", len(growth), 1)
+    def seq_of(self, e: ast.AST, node: Node | None, depth: int = 0) -> _Seq | None:
+        if depth > 5 or node is None:
+            return None
+        if isinstance(e, ast.Name):
+            defs = self.rd.reaching(node, e.id)
+            if e.id == self.vararg and defs and all(d.kind == "param" for d in defs):
+                return _Seq(True, False, e.id)
+            if len(defs) == 1:
+                d = next(iter(defs))
+                if d.kind in ("assign", "walrus") and d.index is None and d.value is not None and d.node is not None:
+                    s = self.seq_of(d.value, d.node, depth + 1)
+                    return s._replace(text=f"{e.id} = {s.text}") if s is not None else None
+            return None
+        if isinstance(e, ast.Call) and not e.keywords and len(e.args) == 1 and self.u.resolve(e.func) in ("builtins.list", "builtins.tuple", "builtins.iter"):
+            return self.seq_of(e.args[0], node, depth + 1)
+        if isinstance(e, (ast.ListComp, ast.GeneratorExp)) and len(e.generators) == 1 and isinstance(e.generators[0].target, ast.Name) and not e.generators[0].is_async:
+            g = e.generators[0]
+            inner = self.seq_of(g.iter, node, depth + 1)
+            form = self.comp_form(e.elt, g.target.id)
+            if inner is None or form is None:
+                return None
+            return _Seq(inner.all and not g.ifs, inner.normal or form == "normal", norm(e)[:70])
+        if isinstance(e, ast.Subscript) and isinstance(e.slice, ast.Slice):
+            inner = self.seq_of(e.value, node, depth + 1)
+            whole = e.slice.lower is None and e.slice.upper is None and e.slice.step is None
+            return inner._replace(all=inner.all and whole, text=norm(e)) if inner is not None else None
+        return None
 
-    n_atoms = n_shapes = 0
-    for site, arg in growth:
-        sn = cfg.node_of(site)
-        if arg is None or not isinstance(arg, ast.Name) or sn is None:
-            raise AnalysisError(f"safe_join: cannot interpret list growth `{norm(site)}` (expected <list>.append(<name>))")
-        loop = astq.enclosing(site, (ast.For, ast.AsyncFor, ast.While))
-        head = cfg.node_of(loop) if loop is not None else None
-        # (a) the loop ranges over every untrusted component
-        if not isinstance(loop, ast.For) or head is None or not isinstance(loop.target, ast.Name):
-            ctx.ob("R14.1", "components are appended inside a loop over *pathnames", False, f"`{norm(site)}` is not inside `for <name> in {vararg}`", fi, site, "safe_join append outside loop")
-            continue
-        it = loop.iter
-        if isinstance(it, ast.Name):
-            all_elems = it.id == vararg and all(d.kind == "param" for d in rd.reaching(head, vararg))
-        elif isinstance(it, ast.Subscript) and astq.is_name(it.value, vararg):
-            all_elems = False
-        else:
-            raise AnalysisError(f"safe_join: cannot interpret loop iterable `{norm(it)}`")
-        ctx.ob("R14.1", "the checking loop ranges over all of *pathnames", all_elems, f"for {norm(loop.target)} in {norm(it)}", fi, loop, f"safe_join loop over {norm(it)}")
-        loopdefs = [d for d in rd.gen[head.id] if d.kind == "for"]
-        if len(loopdefs) != 1:
-            raise AnalysisError("safe_join: loop target is not a single name")
-        root = loopdefs[0]
+    def pass_of(self, loop: ast.AST | None) -> _Pass | None:
+        """the traversal a for loop performs, or None when it does not range over the components."""
+        if not isinstance(loop, ast.For):
+            return None
+        head = self.cfg.node_of(loop)
+        if head is None:
+            return None
+        it, tg = loop.iter, loop.target
+        loopdefs = [d for d in self.rd.gen[head.id] if d.kind == "for"]
+        if isinstance(tg, ast.Name):
+            s = self.seq_of(it, head)
+            if s is not None:
+                return _Pass(loop, head, s, frozenset(d for d in loopdefs if d.name == tg.id))
+            # for i in range(len(S)): x = S[i]
+            if isinstance(it, ast.Call) and self.u.resolve(it.func) == "builtins.range" and len(it.args) in (1, 2) and not it.keywords:
+                ln = it.args[-1]
+                from_start = len(it.args) == 1 or (isinstance(it.args[0], ast.Constant) and it.args[0].value == 0)
+                if isinstance(ln, ast.Call) and self.u.resolve(ln.func) == "builtins.len" and len(ln.args) == 1:
+                    s = self.seq_of(ln.args[0], head)
+                    if s is not None:
+                        roots = set()
+                        for ds in self.rd.gen.values():
+                            for d in ds:
+                                v = d.value
+                                if d.kind == "assign" and d.index is None and d.node is not None and self.u.inside(d.stmt, loop) and isinstance(v, ast.Subscript) and astq.is_name(v.slice, tg.id) and norm(v.value) == norm(ln.args[0]) and self.rd.reaching(d.node, tg.id) == frozenset(loopdefs):
+                                    roots.add(d)
+                        if roots:
+                            return _Pass(loop, head, s._replace(all=s.all and from_start), frozenset(roots))
+            return None
+        if isinstance(tg, ast.Tuple) and len(tg.elts) == 2 and isinstance(tg.elts[1], ast.Name) and isinstance(it, ast.Call) and self.u.resolve(it.func) == "builtins.enumerate" and it.args:
+            s = self.seq_of(it.args[0], head)
+            if s is not None:
+                return _Pass(loop, head, s, frozenset(d for d in loopdefs if d.name == tg.elts[1].id and d.index == 1))
+        return None
 
-        # (b) appended value: the loop element, possibly normalised
-        w_roots, _, _ = _roots(u, arg.id, sn)
-        ctx.ob("R14.1", "the appended value is the loop's component (raw or normalised)", w_roots == {root}, f"`{norm(site)}`: `{arg.id}` originates from {sorted(_ddesc(d) for d in w_roots)}", fi, site, "safe_join appended value origin")
-
-        # (c) reject atoms inside the loop
+    # -- reject tests of one traversal ---------------------------------------------
+    def atoms_of_pass(self, p: _Pass) -> tuple[list[Atom], list[str], list[str]]:
+        if id(p.loop) in self._pass_atoms:
+            return self._pass_atoms[id(p.loop)]
+        u, cfg = self.u, self.cfg
         atoms: list[Atom] = []
         unknown: list[str] = []
         rawtests: list[str] = []
         for tn in cfg.tests():
-            if tn.kind != "test" or not u.inside(tn.ast, loop):
+            if tn.kind != "test" or not u.inside(tn.ast, p.loop):
                 continue
-            cands, complete = _atoms_of_test(ctx, u, tn, head)
+            cands, complete = _atoms_of_test(self.ctx, u, tn, p.head)
             if cands is None:
-                if any(isinstance(x, ast.Name) and _roots(u, x.id, tn)[0] == {root} for x in ast.walk(tn.ast)):
+                if any(isinstance(x, ast.Name) and isinstance(x.ctx, ast.Load) and 0 < len(_roots(u, x.id, tn)[0]) and _roots(u, x.id, tn)[0] <= p.roots for x in ast.walk(tn.ast)):
                     unknown.append(norm(tn.ast))
                 continue
             if not complete:
                 unknown.append(norm(tn.ast))
             for kind, consts, lab, var, text, en in cands:
                 roots, norms, raw = _roots(u, var.id, en)
-                if roots != {root}:
+                if len(roots) != 1 or not roots <= p.roots:
                     continue  # a test about something else
-                # normalised on every path of this iteration? raw loop element may arrive only as ""
+                root = next(iter(roots))
+                # normalised on every path of this iteration? the raw element may arrive only as ""
                 normal = True
-                if raw:
+                if raw and not p.seq.normal:
                     if raw != {root}:
                         normal = False
                     else:
-                        r = cfg.reach([head], avoid_nodes=[d.node for d in norms if d.node is not None], avoid_edges=_empty_edges(u, root) + [(head, "F")])
+                        r = cfg.reach([p.head], avoid_nodes=[d.node for d in norms if d.node is not None], avoid_edges=_empty_edges(u, root) + ([(p.head, "F")] if p.head.kind == "loop" else []))
                         normal = bool(norms) and en.id not in r
                 if kind in ("eq", "in") and set(consts) == {""}:
                     continue  # emptiness test, not a reject atom
                 if not normal:
                     rawtests.append(text)
                 atoms.append(Atom(tn, lab, kind, consts, var, text, normal, en))
-        n_atoms += len(atoms)
-        none_rets = [cfg.node_of(r) for r in astq.returns_of(fn) if r.value is None or astq.is_none(r.value)]
-        none_rets = [n for n in none_rets if n is not None]
-        # normpath neither adds nor removes a leading '/' or a separator character, so those two shapes may be
-        # tested on the raw element as well; the '..' shapes only exist after normalisation
-        for what, desc, need_norm in (("abs", "starts with '/' (absolute)", False), ("dotdot", "equals '..'", True), ("dotdot/", "starts with '../'", True), ("altsep", "contains an alternative separator (Windows hosts)", False)):
+        self.n_atoms += len(atoms)
+        self._pass_atoms[id(p.loop)] = (atoms, unknown, rawtests)
+        return atoms, unknown, rawtests
+
+    def refuses(self, test: Node, label: str, stop: list[Node]) -> bool:
+        """does every path that leaves `test` on `label` end in `return None` - without coming back to a node in
+        `stop` (the loop head: the next component; the place where the component is used), raising or returning a
+        path?  Constants assigned on the way (`refused = True; break`) decide later tests of that flag."""
+        cfg = self.cfg
+        goals = {n.id for n in self.none_rets}
+        if not goals:
+            return False
+        bad = {cfg.exit.id, cfg.raise_exit.id} | {n.id for n in stop}
+        stack: list[tuple[Node, tuple[tuple[str, object], ...]]] = [(s, ()) for s in cfg.succ(test, label)]
+        seen: set[tuple[int, tuple]] = set()
+        while stack:
+            n, env = stack.pop()
+            if n.id in goals or (n.id, env) in seen:
+                continue
+            seen.add((n.id, env))
+            if n.id in bad:
+                return False
+            known = dict(env)
+            for d in self.rd.gen[n.id]:
+                if d.kind == "assign" and d.index is None and isinstance(d.value, ast.Constant):
+                    known[d.name] = d.value.value
+                else:
+                    known.pop(d.name, None)
+            env2 = tuple(sorted(known.items(), key=lambda kv: kv[0]))
+            only = None
+            if n.kind == "test":
+                only = _const_truth(n.ast, known)
+            for s2, lab in n.succs:
+                if lab == "exc" or (only is not None and lab in ("T", "F") and lab != ("T" if only else "F")):
+                    continue
+                stack.append((s2, env2))
+        return True
+
+    # -- obligations ------------------------------------------------------------------
+    def shapes_in_pass(self, p: _Pass, sn: Node, site: ast.AST, w_roots: set[Def] | None, where: str) -> None:
+        """the four escaping shapes are rejected on every path of the iteration that reaches `sn` (the place where the
+        component enters the result; the loop head itself for a pure checking traversal)."""
+        u, cfg, ctx, fi = self.u, self.cfg, self.ctx, self.fi
+        atoms, unknown, rawtests = self.atoms_of_pass(p)
+        starts = cfg.succ(p.head, "T") if p.head.kind == "loop" else [x for x, _ in p.head.succs]
+        for what, desc, need_norm in self.SHAPES:
             cover = [a for a in atoms if a.covers(what)]
             guarding = []
             for a in cover:
-                dom = sn.id not in cfg.reach([head], avoid_edges=[(a.node, a.passlabel)])
-                same = _roots(u, a.var.id, a.evalnode)[0] == w_roots
+                dom = sn.id not in cfg.reach(starts, avoid_edges=[(a.node, a.passlabel)])
+                same = w_roots is None or _roots(u, a.var.id, a.evalnode)[0] == w_roots
                 if dom and same and (a.normal or not need_norm):
                     guarding.append(a)
-            ok = bool(guarding)
-            n_shapes += 1
+            cross = [] if guarding or p.head.kind != "loop" else self.cross_guards(what, need_norm, p.head, exclude=p)
+            ok = bool(guarding or cross)
+            self.n_shapes += 1
             if not ok and unknown and not cover:
                 raise AnalysisError(f"safe_join: cannot interpret test(s) {unknown} on the component; shape '{what}' undecided")
-            fact = (
-                f"rejected by {[a.text for a in guarding]} on {'the normalised ' if guarding[0].normal else ''}`{guarding[0].var.id}` before `{norm(site)}`" if ok else
-                f"no reject test {'on the normalised component ' if need_norm else ''}covers it before `{norm(site)}`; tests on the normalised value: {[a.text for a in atoms if a.normal]}; "
-                f"tests reading the un-normalised value: {rawtests}" + (f"; covering tests that do not guard the append: {[a.text for a in cover if a.normal or not need_norm]}" if [a for a in cover if a.normal or not need_norm] else "")
-            )
+            if guarding:
+                fact = f"rejected by {[a.text for a in guarding]} on {'the normalised ' if guarding[0].normal else ''}`{guarding[0].var.id}` before {where}"
+            elif cross:
+                fact = f"rejected by an earlier check of every component: {cross} before {where}"
+            else:
+                usable = [a.text for a in cover if a.normal or not need_norm]
+                fact = (
+                    f"no reject test {'on the normalised component ' if need_norm else ''}covers it before {where}; tests on the normalised value: {[a.text for a in atoms if a.normal]}; "
+                    f"tests reading the un-normalised value: {rawtests}" + (f"; covering tests that do not guard it: {usable}" if usable else "")
+                )
             ctx.ob("R14.1", f"a normalised component that {desc} is never appended", ok, fact, fi, cover[0].node.ast if cover else site, f"safe_join reject {what}")
             for a in guarding:
-                starts = [s for s in cfg.succ(a.node, a.reject) if s not in none_rets]
-                r = cfg.reach(starts, avoid_nodes=none_rets) if starts else set()
-                okr = bool(none_rets) and cfg.exit.id not in r and head.id not in r and sn.id not in r and cfg.raise_exit.id not in r
+                okr = self.refuses(a.node, a.reject, [p.head] + ([sn] if sn is not p.head else []))
                 ctx.ob("R14.1", f"the reject edge of `{a.text}` ends in `return None`", okr, "every path from the edge reaches `return None`" if okr else "a path from the reject edge continues the loop, raises or returns a path", fi, a.node.ast, f"safe_join refuse {what} {a.kind}")
-    ctx.floor("R14.1", "escape-shape obligations (4 per append site)", n_shapes, 4)
-    ctx.note(f"R14.1: {n_atoms} reject test(s) on the loop's component interpreted")
+
+    def cross_guards(self, what: str, need_norm: bool, target: Node, exclude: _Pass | None = None) -> list[str]:
+        """checks of *every* component that are complete before `target` is reached: a checking traversal whose every
+        iteration passes the pass edge of a covering test and that can only be left through its exhausted head, or an
+        `any(<reject condition> for x in <components>)` / `all(...)` test whose pass edge dominates `target`."""
+        u, cfg = self.u, self.cfg
+        out: list[str] = []
+        for loop in (n for n in own_nodes(self.fn) if isinstance(n, ast.For)):
+            p = self.pass_of(loop)
+            if p is None or not p.seq.all or (exclude is not None and p.loop is exclude.loop) or (target.ast is not None and u.inside(target.ast, loop)):
+                continue
+            atoms, _unknown, _raw = self.atoms_of_pass(p)
+            starts = cfg.succ(p.head, "T")
+            rej = [(a.node, a.reject) for a in atoms]
+            # the target lies behind the loop: reachable only through the head, and from inside the loop only by
+            # finishing the iteration (or on a reject edge, which is judged separately)
+            if target.id in cfg.reach(avoid_nodes=[p.head]) or target.id in cfg.reach(starts, avoid_nodes=[p.head], avoid_edges=rej):
+                continue
+            for a in atoms:
+                if a.covers(what) and (a.normal or not need_norm) and p.head.id not in cfg.reach(starts, avoid_edges=[(a.node, a.passlabel)]) and self.refuses(a.node, a.reject, [p.head, target]):
+                    out.append(f"{a.text} (for {norm(loop.target)} in {norm(loop.iter)[:40]})")
+        for tn in cfg.tests():
+            if tn.kind != "test" or not isinstance(tn.ast, ast.Call) or self.u.resolve(tn.ast.func) not in ("builtins.any", "builtins.all") or len(tn.ast.args) != 1:
+                continue
+            g = tn.ast.args[0]
+            if not isinstance(g, (ast.GeneratorExp, ast.ListComp)) or len(g.generators) != 1 or g.generators[0].ifs or not isinstance(g.generators[0].target, ast.Name):
+                continue
+            seq = self.seq_of(g.generators[0].iter, tn)
+            if seq is None or not seq.all:
+                continue
+            is_any = self.u.resolve(tn.ast.func) == "builtins.any"
+            var = g.generators[0].target.id
+            # any(c(x)): one element with c true makes the test true; all(c(x)): one element with c false makes it false
+            cands, _complete = _implied(self.ctx, u, g.elt, is_any, tn)
+            reject, passlab = ("T", "F") if is_any else ("F", "T")
+            if target.id in cfg.reach(avoid_edges=[(tn, passlab)]):
+                continue
+            for kind, consts, _lab, v, text, _at in cands:
+                if v.id != var or (kind in ("eq", "in") and set(consts) == {""}):
+                    continue
+                a = Atom(tn, reject, kind, consts, v, text, seq.normal, tn)
+                if a.covers(what) and (a.normal or not need_norm) and self.refuses(tn, reject, [target]):
+                    out.append(f"{text} (for every {var} in {seq.text[:40]})")
+        return out
+
+    def shapes_at(self, target: Node, site: ast.AST, where: str) -> None:
+        """the whole sequence enters the result at `target`: every shape must be rejected by a completed check."""
+        for what, desc, need_norm in self.SHAPES:
+            cross = self.cross_guards(what, need_norm, target)
+            self.n_shapes += 1
+            fact = f"rejected by a check of every component: {cross} before {where}" if cross else f"no completed check of every {'normalised ' if need_norm else ''}component covers it before {where}"
+            self.ctx.ob("R14.1", f"a normalised component that {desc} is never appended", bool(cross), fact, self.fi, site, f"safe_join reject {what}")
+
+    # -- how components enter the result -------------------------------------------------
+    def growth_of(self, st: ast.AST, names: set[str]) -> tuple[str, ast.AST | None] | None:
+        """(list name, added element) when the statement / call grows one of the lists by exactly one element;
+        element None = a growth that cannot be interpreted."""
+
+        def single(e: ast.AST) -> ast.AST | None:
+            return e.elts[0] if isinstance(e, (ast.List, ast.Tuple)) and len(e.elts) == 1 and not isinstance(e.elts[0], ast.Starred) else None
+
+        if isinstance(st, ast.Call) and isinstance(st.func, ast.Attribute) and isinstance(st.func.value, ast.Name) and st.func.value.id in names:
+            m = st.func.attr
+            if m == "append" and len(st.args) == 1 and not st.keywords:
+                return st.func.value.id, st.args[0]
+            if m == "extend" and len(st.args) == 1 and not st.keywords:
+                return st.func.value.id, single(st.args[0])
+            if m in ("insert", "__iadd__", "__setitem__"):
+                return st.func.value.id, None
+            return None
+        if isinstance(st, ast.AugAssign) and isinstance(st.target, ast.Name) and st.target.id in names:
+            return st.target.id, single(st.value) if isinstance(st.op, ast.Add) else None
+        if isinstance(st, ast.Assign) and len(st.targets) == 1 and isinstance(st.targets[0], ast.Name) and st.targets[0].id in names:
+            nm, v = st.targets[0].id, st.value
+            if isinstance(v, ast.List) and len(v.elts) == 2 and isinstance(v.elts[0], ast.Starred) and astq.is_name(v.elts[0].value, nm) and not isinstance(v.elts[1], ast.Starred):
+                return nm, v.elts[1]
+            if isinstance(v, ast.BinOp) and isinstance(v.op, ast.Add) and astq.is_name(v.left, nm):
+                return nm, single(v.right)
+            if isinstance(v, ast.Call) and self.u.resolve(v.func) in JOIN and len(v.args) == 2 and not v.keywords and astq.is_name(v.args[0], nm) and not isinstance(v.args[1], ast.Starred):
+                return nm, v.args[1]  # r = join(r, x): the incremental spelling of the same growth
+            return None
+        if isinstance(st, ast.Subscript) and isinstance(st.ctx, ast.Store) and isinstance(st.value, ast.Name) and st.value.id in names:
+            return st.value.id, None
+        return None
+
+    def filter_helper(self, h: FuncInfo) -> bool:
+        """is the module-level helper a component filter - it returns None (refusal) or its single parameter, raw
+        or normalised?  If so its body is judged like one iteration of the traversal: the four shapes must be
+        rejected before each `return <component>`, and the reject edges must end in `return None`."""
+        if id(h.node) in self._filters:
+            return self._filters[id(h.node)]
+        self._filters[id(h.node)] = False
+        a = h.node.args  # type: ignore[attr-defined]
+        pos = a.posonlyargs + a.args
+        if len(pos) != 1 or a.vararg or a.kwarg or a.kwonlyargs:
+            return False
+        sub = _SafeJoin(self.ctx, h)
+        pdef = next(d for d in sub.rd.param_defs if d.name == pos[0].arg)
+        sites = []
+        for r in astq.returns_of(h.node):
+            rn = sub.cfg.node_of(r)
+            if r.value is None or astq.is_none(r.value):
+                continue
+            if rn is None or not isinstance(r.value, ast.Name) or _roots(sub.u, r.value.id, rn)[0] != {pdef}:
+                return False
+            sites.append((r, rn))
+        if not sites or not sub.none_rets:
+            return False
+        p = _Pass(h.node, sub.cfg.entry, _Seq(True, False, pos[0].arg), frozenset([pdef]))  # type: ignore[arg-type]
+        for r, rn in sites:
+            sub.shapes_in_pass(p, rn, r, {pdef}, f"`{norm(r)}` in {h.qualname}")
+        self.n_shapes += sub.n_shapes
+        self.n_atoms += sub.n_atoms
+        self._filters[id(h.node)] = True
+        return True
+
+    def through_filter(self, p: _Pass, arg: ast.Name, sn: Node, site: ast.AST) -> bool:
+        """the appended value is what a component filter helper returned for the loop's component: then the
+        helper's refusal (None) must be detected before the value is used, and lead to `return None`."""
+        u, ctx, fi = self.u, self.ctx, self.fi
+        defs = self.rd.reaching(sn, arg.id)
+        calls = []
+        for d in defs:
+            v = d.value
+            while isinstance(v, ast.NamedExpr):
+                v = v.value
+            if d.kind not in ("assign", "walrus") or d.index is not None or d.node is None or not isinstance(v, ast.Call) or len(v.args) != 1 or v.keywords or not isinstance(v.args[0], ast.Name):
+                return False
+            h = _module_helper(u, v)
+            roots = _roots(u, v.args[0].id, d.node)[0]
+            if h is None or len(roots) != 1 or not roots <= p.roots:
+                return False
+            calls.append((d, v, h))
+        if not calls or not all(self.filter_helper(h) for _d, _v, h in calls):
+            return False
+        ids = {id(v) for _d, v, _h in calls}
+        nulls = Nulls(u, lambda c: id(c) in ids)
+        live = nulls.origins(arg, sn, ancestor_conds(u, arg))
+        ctx.ob("R14.1", "a component the filter helper refused (None) is never appended", not live, f"`{norm(site)[:60]}`: " + ("every path from the helper call passes a not-None test of its result" if not live else "the helper's None can reach it"), fi, site, "safe_join filter result tested")
+        for d, _v, _h in calls:
+            for tn, lab, _var in nulls.tests_of(d):
+                okr = self.refuses(tn, "F" if lab == "T" else "T", [p.head, sn])
+                ctx.ob("R14.1", f"the reject edge of `{norm(tn.ast)}` ends in `return None`", okr, "every path from the edge reaches `return None`" if okr else "a path from the reject edge continues the loop, raises or returns a path", fi, tn.ast, "safe_join refuse filter result")
+        return True
+
+    def accumulator(self, nm: ast.Name, rn: Node, r: ast.Return, with_dir: bool) -> None:
+        """`nm` accumulates the result (a list that is joined, or the incrementally joined path): it starts from the
+        trusted directory (or empty, when the directory is passed to join separately) and grows only by checked
+        components."""
+        u, cfg, rd, ctx, fi = self.u, self.cfg, self.rd, self.ctx, self.fi
+        names = {nm.id}
+        sites: list[tuple[ast.AST, ast.AST | None]] = []
+        growth_stmts: set[int] = set()
+        for n in own_nodes(self.fn):
+            g = self.growth_of(n, names)
+            if g is not None:
+                sites.append((n, g[1]))
+                growth_stmts.add(id(n))
+        # initial contents: every definition that is not itself a growth step
+        seen: set[int] = set()
+        work = list(rd.reaching(rn, nm.id))
+        while work:
+            d = work.pop()
+            if id(d) in seen:
+                continue
+            seen.add(id(d))
+            if d.stmt is not None and id(d.stmt) in growth_stmts and d.node is not None:
+                work += list(rd.reaching(d.node, nm.id))
+                continue
+            v = d.value
+            if d.kind == "assign" and d.index is None and d.node is not None and isinstance(v, ast.List):
+                okd = all(self.trusted_dir(e, d.node) for e in v.elts) and bool(v.elts) == with_dir
+            elif d.kind == "assign" and d.index is None and d.node is not None and v is not None and with_dir:
+                okd = self.trusted_dir(v, d.node)
+            else:
+                okd = False
+            ctx.ob("R14.1", "the joined list starts from the trusted directory only", okd, f"`{norm(d.stmt) if d.stmt is not None else d.kind}`", fi, d.stmt, f"safe_join list init {d.kind}")
+        self.n_growth += len(sites)
+        ctx.floor("R14.1", "append sites of the joined list", len(sites), 1)
+        for site, arg in sites:
+            sn = cfg.node_of(site)
+            names_ = _selected_names(arg) if arg is not None else None
+            if names_ is None or sn is None:
+                raise AnalysisError(f"safe_join: cannot interpret list growth `{norm(site)[:80]}` (expected one component added per step)")
+            loop = astq.enclosing(site, (ast.For, ast.AsyncFor, ast.While))
+            if isinstance(loop, ast.While):
+                raise AnalysisError(f"safe_join: cannot interpret the while loop around `{norm(site)[:60]}` as a traversal of the components")
+            if not isinstance(loop, ast.For):
+                ctx.ob("R14.1", "components are appended inside a loop over *pathnames", False, f"`{norm(site)}` is not inside `for <name> in {self.vararg}`", fi, site, "safe_join append outside loop")
+                continue
+            p = self.pass_of(loop)
+            if p is None:
+                raise AnalysisError(f"safe_join: cannot interpret loop iterable `{norm(loop.iter)}`")
+            ctx.ob("R14.1", "the checking loop ranges over all of *pathnames", p.seq.all, f"for {norm(loop.target)} in {norm(loop.iter)}" + (f" ({p.seq.text})" if p.seq.text != norm(loop.iter) else ""), fi, loop, f"safe_join loop over {norm(loop.iter)}")
+            w_roots: set[Def] = set()
+            for nm_ in names_:
+                w_roots |= _roots(u, nm_.id, sn)[0]
+            okw = len(w_roots) == 1 and w_roots <= p.roots
+            if not okw and isinstance(arg, ast.Name) and self.through_filter(p, arg, sn, site):
+                ctx.ob("R14.1", "the appended value is the loop's component (raw or normalised)", True, f"`{norm(site)[:70]}`: `{arg.id}` is what a component filter helper returned for the loop's component", fi, site, "safe_join appended value origin")
+                continue
+            ctx.ob("R14.1", "the appended value is the loop's component (raw or normalised)", okw, f"`{norm(site)[:70]}`: `{norm(arg)[:40]}` originates from {sorted(_ddesc(d) for d in w_roots)}", fi, site, "safe_join appended value origin")
+            self.shapes_in_pass(p, sn, site, w_roots, f"`{norm(site)[:60]}`")
+
+    def run(self) -> None:
+        u, cfg, ctx, fi, fn = self.u, self.cfg, self.ctx, self.fi, self.fn
+        for r in astq.returns_of(fn):
+            rn = cfg.node_of(r)
+            if r.value is None or astq.is_none(r.value) or rn is None:
+                continue
+            v: ast.AST = r.value
+            vn = rn
+            hops = 0
+            while isinstance(v, ast.Name) and hops < 3:
+                # the result bound to a local and returned
+                defs = self.rd.reaching(vn, v.id)
+                d = next(iter(defs)) if len(defs) == 1 else None
+                if d is None or d.kind != "assign" or d.index is not None or d.value is None or d.node is None or self.growth_of(d.stmt, {v.id}) is not None:
+                    break
+                if not (isinstance(d.value, ast.Call) or isinstance(d.value, ast.Name)):
+                    break
+                v, vn = d.value, d.node
+                hops += 1
+            self.n_join += 1
+            cons = f"safe_join result {norm(v.func) if isinstance(v, ast.Call) else type(v).__name__}"
+            what = "safe_join returns None or the join of the trusted directory with the checked components"
+            if isinstance(v, ast.Name):
+                # incremental join: r = directory; r = join(r, x)
+                ctx.ob("R14.1", what, True, f"`{v.id}` is joined component by component", fi, r, cons)
+                self.accumulator(v, vn, r, with_dir=True)
+                continue
+            is_join = isinstance(v, ast.Call) and u.resolve(v.func) in JOIN and not v.keywords and bool(v.args)
+            is_strjoin = isinstance(v, ast.Call) and isinstance(v.func, ast.Attribute) and v.func.attr == "join" and isinstance(v.func.value, ast.Constant) and v.func.value.value == "/" and len(v.args) == 1 and not v.keywords
+            if not (is_join or is_strjoin):
+                ctx.ob("R14.1", what, False, norm(v), fi, r, cons)
+                continue
+            assert isinstance(v, ast.Call)
+            args = list(v.args)
+            if is_strjoin and not isinstance(args[0], ast.Starred):
+                args = [ast.Starred(value=args[0], ctx=ast.Load())]
+            starred = [a for a in args if isinstance(a, ast.Starred)]
+            plain = [a for a in args if not isinstance(a, ast.Starred)]
+            ok = len(starred) == 1 and args[-1] is starred[0] and isinstance(starred[0].value, ast.Name) and len(plain) <= 1
+            fact = norm(v)
+            if ok and plain and not self.trusted_dir(plain[0], vn):
+                ok = False
+            if not ok:
+                bad = next((a for a in plain if not self.trusted_dir(a, vn)), None) or (plain[1] if len(plain) > 1 else None)
+                if bad is not None:
+                    fact = f"`{norm(bad)}` joined without having passed the reject test"
+                ctx.ob("R14.1", what, False, fact, fi, r, cons)
+            else:
+                ctx.ob("R14.1", what, True, fact, fi, r, cons)
+            q = next((a.value for a in starred if isinstance(a.value, ast.Name)), None)
+            if q is None:
+                continue
+            seq = self.seq_of(q, vn)
+            if seq is None and not plain:
+                # join(*L) with L = [directory, *components] / [directory] + components
+                ds = self.rd.reaching(vn, q.id)
+                d0 = next(iter(ds)) if len(ds) == 1 else None
+                if d0 is not None and d0.kind == "assign" and d0.index is None and d0.node is not None and d0.value is not None:
+                    e0, rest = d0.value, None
+                    if isinstance(e0, ast.List) and len(e0.elts) == 2 and not isinstance(e0.elts[0], ast.Starred) and isinstance(e0.elts[1], ast.Starred):
+                        rest, first = e0.elts[1].value, e0.elts[0]
+                    elif isinstance(e0, ast.BinOp) and isinstance(e0.op, ast.Add) and isinstance(e0.left, ast.List) and len(e0.left.elts) == 1:
+                        rest, first = e0.right, e0.left.elts[0]
+                    if rest is not None and self.trusted_dir(first, d0.node) and self.seq_of(rest, d0.node) is not None:
+                        seq, plain = self.seq_of(rest, d0.node), [first]
+            if seq is not None:
+                # the whole sequence is joined at once
+                ctx.ob("R14.1", "the checking loop ranges over all of *pathnames", seq.all and bool(plain), f"join({norm(plain[0]) if plain else ''}, *{q.id}) with {q.id}: {seq.text}", fi, r, f"safe_join loop over {q.id}")
+                self.n_growth += 1
+                self.shapes_at(rn, r, f"`{norm(v)[:60]}`")  # the value is not used before it is returned
+            else:
+                self.accumulator(q, vn, r, with_dir=not plain)
+        ctx.floor("R14.1", "joined results", self.n_join, 1)
+        ctx.floor("R14.1", "places where components enter the result", self.n_growth, 1)
+        ctx.floor("R14.1", "escape-shape obligations (4 per place)", self.n_shapes, 4)
+        ctx.note(f"R14.1: {self.n_atoms} reject test(s) on the component interpreted")
+
+
+def _selected_names(e: ast.AST) -> list[ast.Name] | None:
+    """the names one of which is the value of e: a name, or a conditional expression / and-or chain of such."""
+    if isinstance(e, ast.Name):
+        return [e]
+    arms = [e.body, e.orelse] if isinstance(e, ast.IfExp) else list(e.values) if isinstance(e, ast.BoolOp) else None
+    if arms is None:
+        return None
+    out: list[ast.Name] = []
+    for a in arms:
+        sub = _selected_names(a)
+        if sub is None:
+            return None
+        out += sub
+    return out
+
+
+def _const_truth(e: ast.AST, known: dict[str, object]) -> bool | None:
+    """truth value of a condition atom under constants known on the path (a flag set on the reject edge)."""
+    if isinstance(e, ast.Name) and e.id in known:
+        return bool(known[e.id])
+    if isinstance(e, ast.Compare) and len(e.ops) == 1 and isinstance(e.left, ast.Name) and e.left.id in known and isinstance(e.comparators[0], ast.Constant):
+        a, b, op = known[e.left.id], e.comparators[0].value, e.ops[0]
+        if isinstance(op, ast.Is):
+            return a is b or (a == b and isinstance(a, (bool, type(None))))
+        if isinstance(op, ast.IsNot):
+            return not (a is b or (a == b and isinstance(a, (bool, type(None)))))
+        if isinstance(op, ast.Eq):
+            return a == b
+        if isinstance(op, ast.NotEq):
+            return a != b
+    return None
+
+
+def _safe_join_rule(ctx: Ctx) -> None:
+    _SafeJoin(ctx).run()
 
 
 def _ddesc(d: Def) -> str:
@@ -397,29 +905,239 @@ def _leaf_atoms(ctx: Ctx, u: Unit, e: ast.AST, at: Node):
 # R14.2 / R14.3
 
 
-def _units(ctx: Ctx) -> list[Unit]:
-    repo = ctx.repo
-    units: list[Unit] = []
-    sfd = repo.func("utils.send_from_directory")
-    for need in ("path", "directory"):
-        if need not in sfd.params:
-            raise AnalysisError(f"send_from_directory: parameter `{need}` missing")
-    units.append(_unit_of(ctx, sfd, untrusted={"path", "environ"}, refusal="raise"))
-    sdm = repo.cls("middleware.shared_data.SharedDataMiddleware")
-    for name, m in sorted(sdm.methods.items()):
-        units.append(_unit_of(ctx, m, untrusted={"environ"} & set(m.params), refusal="none"))
-        for nd in nested_defs(m.node):
-            # a callable built by a factory method is later invoked with the request path: all its parameters are untrusted
+class _Flow:
+    """the analysis units of R14.2 / R14.3 and what flows between them.
+
+    Roots: utils.send_from_directory (path, environ untrusted), every method of SharedDataMiddleware (environ
+    untrusted) and the callables nested in them (every parameter untrusted: they are invoked later with the
+    request path).  Helpers: a same-module function or same-class method that a unit calls is analysed too; the kind
+    (trusted / safejoined / unsafe) and the possible None-ness of each of its parameters is the join over the
+    arguments its call sites pass, and its call expression stands for what it returns (fixpoint)."""
+
+    def __init__(self, ctx: Ctx):
+        self.ctx = ctx
+        self.repo = ctx.repo
+        self.units: list[Unit] = []
+        self.by_func: dict[int, Unit] = {}
+        self.summaries: dict[int, Summary] = {}
+        self.sdm = self.repo.cls("middleware.shared_data.SharedDataMiddleware")
+        sfd = self.repo.func("utils.send_from_directory")
+        for need in ("path", "directory"):
+            if need not in sfd.params:
+                raise AnalysisError(f"send_from_directory: parameter `{need}` missing")
+        self.sfd = self._add(_unit_of(ctx, sfd, untrusted={"path", "environ"}, refusal="raise"))
+        for _name, m in sorted(self.sdm.methods.items()):
+            self._add(_unit_of(ctx, m, untrusted={"environ"} & set(m.params), refusal="none"))
+        self.pass_through = _sink_summaries(ctx, self.units)
+        self._solve()
+
+    def _add(self, u: Unit) -> Unit:
+        self.units.append(u)
+        if u.node is u.owner.node:
+            self.by_func[id(u.node)] = u
+        for nd in nested_defs(u.node):
+            # a callable built by a factory is later invoked with the request path: all its parameters are untrusted
             a = nd.args
             ps = [x.arg for x in a.posonlyargs + a.args + a.kwonlyargs]
-            units.append(Unit(repo, m, nd, f"{m.qualname}.<{nd.name}>", untrusted=ps, refusal="none"))
-    return units
+            inner = u.label.removeprefix(u.owner.qualname)
+            self._add(Unit(self.repo, u.owner, nd, f"{u.owner.qualname}{inner}.<{nd.name}>", untrusted=ps, refusal="none" if u.refusal == "none" else "either", enclosing=u))
+        return u
+
+    # -- helpers -----------------------------------------------------------
+    def target_of(self, u: Unit, c: ast.Call) -> tuple[FuncInfo, int] | None:
+        """the function a call runs when it is a helper we follow: (function, number of leading parameters bound
+        implicitly)."""
+        return self.target_of_func(u, c.func)
+
+    def deferred(self, u: Unit, c: ast.Call) -> tuple[FuncInfo, int, ast.Call] | None:
+        """functools.partial(<followed helper>, bound...): the helper is invoked later - with request data in the
+        parameters that are not bound here."""
+        if u.resolve(c.func) == "functools.partial" and c.args and not isinstance(c.args[0], ast.Starred):
+            tg = self.target_of_func(u, c.args[0])
+            if tg is not None:
+                inner = ast.Call(func=c.args[0], args=c.args[1:], keywords=c.keywords)
+                return tg[0], tg[1], inner
+        return None
+
+    def target_of_func(self, u: Unit, f: ast.AST) -> tuple[FuncInfo, int] | None:
+        cls = u.owner.cls
+        fi: FuncInfo | None = None
+        off = 0
+        if isinstance(f, ast.Attribute) and isinstance(f.value, ast.Name) and cls is not None:
+            first = u.owner.params[0] if u.owner.params else None
+            if f.value.id == first and "staticmethod" not in u.owner.decorators and f.attr in cls.methods:
+                fi = cls.methods[f.attr]
+                off = 0 if "staticmethod" in fi.decorators else 1
+        if fi is None:
+            fq = u.resolve(f)
+            if fq is None or not fq.startswith(u.module.name + "."):
+                return None
+            fi = self.repo.try_func(fq)
+            if fi is None:
+                return None
+            off = 1 if "classmethod" in fi.decorators else 0
+        if fi.module is not u.module or fi.fq == "werkzeug.security.safe_join" or fi.fq in SINK_FQ:
+            return None
+        if fi.node is u.owner.node and u.node is u.owner.node:
+            return None  # direct recursion
+        return fi, off
+
+    def sites_of(self, hu: Unit) -> list[tuple[Unit, ast.Call, int]]:
+        """the direct call sites of a followed helper: (calling unit, call, implicit leading parameters)."""
+        out = []
+        for u in self.units:
+            for c in (n for n in own_nodes(u.node) if isinstance(n, ast.Call)):
+                tg = self.target_of(u, c)
+                if tg is not None and tg[0].node is hu.node:
+                    out.append((u, c, tg[1]))
+        return out
+
+    def helper_unit(self, fi: FuncInfo, caller: Unit) -> tuple[Unit, bool]:
+        u = self.by_func.get(id(fi.node))
+        if u is not None:
+            new = not u.helper
+            u.helper = True
+            return u, new
+        hu = _unit_of(self.ctx, fi, refusal="none" if caller.refusal == "none" else "either")
+        hu.helper = True
+        self._add(hu)
+        return hu, True
+
+    @staticmethod
+    def bind(hu: Unit, off: int, c: ast.Call) -> list[tuple[str, ast.AST]]:
+        """(parameter, argument expression) pairs of a call; with * / ** arguments every parameter may receive any
+        argument."""
+        a = hu.node.args  # type: ignore[attr-defined]
+        pos = [x.arg for x in a.posonlyargs + a.args][off:]
+        named = set(pos) | {x.arg for x in a.kwonlyargs}
+        out: list[tuple[str, ast.AST]] = []
+        if any(isinstance(x, ast.Starred) for x in c.args) or any(k.arg is None for k in c.keywords):
+            vals = [x.value if isinstance(x, ast.Starred) else x for x in c.args] + [k.value for k in c.keywords]
+            return [(p, v) for p in hu.params[off:] for v in vals]
+        for i, x in enumerate(c.args):
+            if i < len(pos):
+                out.append((pos[i], x))
+            elif a.vararg is not None:
+                out.append((a.vararg.arg, x))
+        for k in c.keywords:
+            if k.arg in named:
+                out.append((k.arg, k.value))
+            elif a.kwarg is not None:
+                out.append((a.kwarg.arg, k.value))
+        return out
+
+    def follow(self, u: Unit, c: ast.Call) -> Summary | None:
+        tg = self.target_of(u, c)
+        if tg is None:
+            return None
+        return self.summaries.get(id(tg[0].node), Summary())
+
+    def prov(self, u: Unit) -> Prov:
+        return Prov(u, _is_safe_join, _is_primitive_sink, self.follow)
+
+    def is_source(self, u: Unit) -> t.Callable[[ast.Call], bool]:
+        """calls whose result may be None as a refusal: safe_join, and a followed helper that passes a safe_join
+        result (or its refusal) on."""
+        def f(c: ast.Call) -> bool:
+            if _is_safe_join(u, c):
+                return True
+            s = self.follow(u, c)
+            return s is not None and s.nullable and s.kind == J_
+
+        return f
+
+    def nulls(self, u: Unit) -> Nulls:
+        return Nulls(u, self.is_source(u), u.null_params)
+
+    def passes(self, u: Unit) -> t.Callable[[ast.Call, ast.AST], bool]:
+        return lambda c, a: self.target_of(u, c) is not None and (any(a is x for x in c.args) or any(a is k.value for k in c.keywords))
+
+    def _summary(self, hu: Unit) -> Summary:
+        prov, nulls = self.prov(hu), self.nulls(hu)
+        cfg = hu.cfg
+        rets = [r for r in astq.returns_of(hu.node)]
+        kind, why = T_, ""
+        nullable = any(n.kind not in ("entry",) and not isinstance(n.ast, ast.Return) for n, _ in cfg.exit.preds) and bool(rets)
+        tuples: list[list[tuple[str, str]]] = []
+        uniform = bool(rets)
+        for r in rets:
+            rn = cfg.node_of(r)
+            if r.value is None:
+                nullable = True
+                uniform = False
+                continue
+            if nulls.origins(r.value, rn):
+                nullable = True
+            if isinstance(r.value, ast.Tuple) and not any(isinstance(x, ast.Starred) for x in r.value.elts):
+                el = [prov.kind(x, rn, 0, ancestor_conds(hu, x)) for x in r.value.elts]
+                tuples.append(el)
+                for k, w in el:
+                    if _worse(k, kind):
+                        kind, why = k, w
+                continue
+            uniform = False
+            k, w = prov.kind(r.value, rn)
+            if _worse(k, kind):
+                kind, why = k, w
+        elems = None
+        if uniform and tuples and len({len(x) for x in tuples}) == 1:
+            merged = []
+            for i in range(len(tuples[0])):
+                ek, ew = T_, ""
+                for el in tuples:
+                    if _worse(el[i][0], ek):
+                        ek, ew = el[i]
+                merged.append((ek, ew))
+            elems = tuple(merged)
+        return Summary(kind, why, elems, nullable)
+
+    def _solve(self) -> None:
+        for _round in range(10):
+            changed = False
+            for u in list(self.units):
+                prov, nulls = self.prov(u), self.nulls(u)
+                for c in [n for n in own_nodes(u.node) if isinstance(n, ast.Call)]:
+                    tg = self.target_of(u, c)
+                    later = self.deferred(u, c) if tg is None else None
+                    if tg is None and later is None:
+                        continue
+                    hu, new = self.helper_unit((tg or later)[0], u)  # type: ignore[index]
+                    changed = changed or new
+                    node = u.cfg.node_of(c)
+                    pairs = self.bind(hu, tg[1], c) if tg is not None else self.bind(hu, later[1], later[2])  # type: ignore[index]
+                    if later is not None:
+                        bound = {p for p, _ in pairs}
+                        for p in hu.params[later[1] :]:
+                            if p not in bound and hu.param_kind.get(p) != X_:
+                                hu.param_kind[p] = X_
+                                changed = True
+                    for pname, arg in pairs:
+                        conds = ancestor_conds(u, arg)
+                        k = join_kind(hu.param_kind.get(pname, T_), prov.kind(arg, node, 0, conds)[0])
+                        if k != hu.param_kind.get(pname):
+                            hu.param_kind[pname] = k
+                            changed = True
+                        if pname not in hu.null_params and any(not isinstance(o, ast.Constant) for o in nulls.origins(arg, node, conds)):
+                            hu.null_params.add(pname)
+                            changed = True
+            for hu in list(self.by_func.values()):
+                s = self._summary(hu)
+                if s != self.summaries.get(id(hu.node)):
+                    self.summaries[id(hu.node)] = s
+                    changed = True
+            if not changed:
+                return
+        raise AnalysisError("R14.2: the provenance of helper parameters / results does not reach a fixpoint")
 
 
-def _sink_summaries(ctx: Ctx, units: list[Unit]) -> dict[str, int]:
+def _worse(a: str, b: str) -> bool:
+    return join_kind(a, b) == a and a != b
+
+
+def _sink_summaries(ctx: Ctx, units: list[Unit]) -> dict[str, str]:
     """one level: a method of SharedDataMiddleware whose own parameter is handed to a primitive sink is itself a
-    sink in that argument (`self._opener(filename)`): method name -> positional index (self excluded)."""
-    out: dict[str, int] = {}
+    sink in that argument (`self._opener(filename)`): method name -> parameter name."""
+    out: dict[str, str] = {}
     for u in units:
         if u.node is not u.owner.node or u.owner.cls is None:
             continue
@@ -430,7 +1148,7 @@ def _sink_summaries(ctx: Ctx, units: list[Unit]) -> dict[str, int]:
             node = u.cfg.node_of(c)
             for nm in (x for x in ast.walk(c.args[0]) if isinstance(x, ast.Name)):
                 if nm.id in ps and node is not None and any(d.kind == "param" for d in u.rd.reaching(node, nm.id)):
-                    out[u.owner.name] = ps.index(nm.id)
+                    out[u.owner.name] = nm.id
     return out
 
 
@@ -441,18 +1159,24 @@ def _is_primitive_sink(u: Unit, c: ast.Call) -> bool:
     return fq in SINK_FQ
 
 
+def _is_safe_join(u: Unit, c: ast.Call) -> bool:
+    return u.resolve(c.func) == "werkzeug.security.safe_join"
+
+
 def _is_safe_join_call(u: Unit) -> t.Callable[[ast.Call], bool]:
-    return lambda c: u.resolve(c.func) == "werkzeug.security.safe_join"
+    return lambda c: _is_safe_join(u, c)
 
 
 def _sinks_rule(ctx: Ctx) -> None:
-    units = _units(ctx)
-    summ = _sink_summaries(ctx, units)
-    n_sinks = n_sj = n_none = n_use = 0
-    for u in units:
+    flow = _Flow(ctx)
+    summ = flow.pass_through
+    n_sinks = {"send_from_directory": 0, "SharedDataMiddleware": 0}
+    n_sj = n_none = n_use = 0
+    for u in flow.units:
         is_sj = _is_safe_join_call(u)
-        prov = Prov(u, is_sj, lambda c, u=u: _is_primitive_sink(u, c))
+        prov = flow.prov(u)
         cfg, rd = u.cfg, u.rd
+        group = "SharedDataMiddleware" if u.owner.cls is flow.sdm or u.owner.module is flow.sdm.module else "send_from_directory"
         for c in sorted((n for n in own_nodes(u.node) if isinstance(n, ast.Call)), key=lambda n: (n.lineno, n.col_offset)):
             node = cfg.node_of(c)
             # ---- sinks
@@ -466,14 +1190,14 @@ def _sinks_rule(ctx: Ctx) -> None:
                 if arg is None:
                     raise AnalysisError(f"{u.label}: cannot find the path argument of `{norm(c)}`")
             elif isinstance(c.func, ast.Attribute) and astq.is_name(c.func.value, "self") and c.func.attr in summ and u.owner.cls is not None:
-                i = summ[c.func.attr]
-                if i < len(c.args) and not any(isinstance(a, ast.Starred) for a in c.args[: i + 1]):
-                    arg = c.args[i]
-                    what = f"self.{c.func.attr} (passes its argument to a filesystem call)"
-                else:
+                m = u.owner.cls.methods.get(c.func.attr)
+                hu = flow.by_func.get(id(m.node)) if m is not None else None
+                if hu is None or any(isinstance(a, ast.Starred) for a in c.args) or any(k.arg is None for k in c.keywords):
                     raise AnalysisError(f"{u.label}: cannot find the path argument of `{norm(c)}`")
+                arg = next((a for pn, a in flow.bind(hu, 0 if "staticmethod" in m.decorators else 1, c) if pn == summ[c.func.attr]), None)
+                what = f"self.{c.func.attr} (passes its argument to a filesystem call)"
             if arg is not None:
-                n_sinks += 1
+                n_sinks[group] += 1
                 # inside a pass-through helper its own parameter is judged at the call sites
                 if u.owner.name in summ and u.node is u.owner.node and isinstance(arg, ast.Name) and arg.id in u.params and node is not None and all(d.kind == "param" for d in rd.reaching(node, arg.id)):
                     ctx.ob("R14.2", f"{u.label}: {what}({norm(arg)})", True, "parameter of a pass-through helper; every call site is checked as a sink", u.owner, c, f"{u.label} sink {norm(c.func)} param")
@@ -485,122 +1209,220 @@ def _sinks_rule(ctx: Ctx) -> None:
                 n_sj += 1
                 ok, why = prov.safe(c.args[0] if c.args and not isinstance(c.args[0], ast.Starred) else None, node) if c.args else (False, "no base directory")
                 ctx.ob("R14.2", f"{u.label}: safe_join's base directory is trusted", ok, f"`{norm(c)}`" + (f": {why}" if why else ""), u.owner, c, f"{u.label} safe_join base")
-                n_none_, n_use_ = _none_rule(ctx, u, c)
-                n_none += n_none_
-                n_use += n_use_
-    ctx.floor("R14.2", "filesystem sinks in send_from_directory / SharedDataMiddleware", n_sinks, 10)
+        a, b = _null_rule(ctx, flow, u)
+        n_none += a
+        n_use += b
+    for group, n in n_sinks.items():
+        ctx.floor("R14.2", f"filesystem sinks reached from {group}", n, 1)
     ctx.floor("R14.2", "safe_join call sites", n_sj, 1)
     ctx.floor("R14.3", "safe_join results examined for a None test", n_sj, 1)
-    ctx.note(f"R14.3: {n_none} None test(s), {n_use} use(s) of safe_join results examined")
-    _fallthrough_rule(ctx, units)
+    helpers = sorted(u.label for u in flow.units if u.helper)
+    ctx.note(f"R14.2: {sum(n_sinks.values())} sink(s) in {len(flow.units)} unit(s)" + (f"; helpers followed: {helpers}" if helpers else ""))
+    ctx.note(f"R14.3: {n_none} None test(s), {n_use} use(s) of possibly-None results examined")
+    _fallthrough_rule(ctx, flow)
 
 
-def _none_test(e: ast.AST, name: str) -> str | None:
-    """label of the edge on which `name` is known not to be None."""
-    if isinstance(e, ast.Name) and e.id == name:
-        return "T"
-    if isinstance(e, ast.Compare) and len(e.ops) == 1 and astq.is_none(e.comparators[0]) and (astq.is_name(e.left, name) or (isinstance(e.left, ast.NamedExpr) and e.left.target.id == name)):
-        if isinstance(e.ops[0], (ast.Is, ast.Eq)):
-            return "F"
-        if isinstance(e.ops[0], (ast.IsNot, ast.NotEq)):
-            return "T"
-    return None
+def _local_value(u: Unit, e: ast.AST | None, node: Node | None, hops: int = 3) -> ast.AST | None:
+    """the expression a local alias stands for: a name with a single plain definition (`exc = NotFound()`,
+    `nothing = None, None`, `app = self.app`) or a module-level constant is replaced by its value."""
+    while isinstance(e, ast.Name) and node is not None and hops > 0:
+        defs = u.rd.reaching(node, e.id)
+        if not defs and not u._is_local(e.id):
+            vals = u.module.assigns.get(e.id) or []
+            if len(vals) != 1:
+                return e
+            return vals[0]
+        d = next(iter(defs)) if len(defs) == 1 else None
+        if d is None or d.kind != "assign" or d.index is not None or d.value is None or d.node is None:
+            return e
+        e, node = d.value, d.node
+        hops -= 1
+    return e
 
 
 def _refusal_nodes(u: Unit, kind: str) -> list[Node]:
     out = []
     for n in own_nodes(u.node, through_lambdas=False):
-        if kind == "raise" and isinstance(n, ast.Raise) and astq.raised_name(n) == "NotFound":
-            out.append(n)
-        elif kind == "none" and isinstance(n, ast.Return):
-            v = n.value
-            if v is None or astq.is_none(v) or (isinstance(v, ast.Tuple) and v.elts and all(astq.is_none(x) for x in v.elts)):
-                out.append(n)
-        elif kind == "app" and isinstance(n, ast.Return) and isinstance(n.value, ast.Call) and isinstance(n.value.func, ast.Attribute) and astq.is_self_attr(n.value.func, "app"):
-            out.append(n)
-    return [x for x in (u.cfg.node_of(n) for n in out) if x is not None]
+        cn = u.cfg.node_of(n) if isinstance(n, (ast.Raise, ast.Return)) else None
+        if cn is None:
+            continue
+        if kind in ("raise", "either") and isinstance(n, ast.Raise):
+            exc = _local_value(u, n.exc, cn)
+            if isinstance(exc, ast.Call):
+                exc = exc.func
+            d = dotted(exc) if exc is not None else None
+            if d is not None and d.rsplit(".", 1)[-1] == "NotFound":
+                out.append(cn)
+        elif kind in ("none", "either") and isinstance(n, ast.Return) and _refusal_value(_local_value(u, n.value, cn)):
+            out.append(cn)
+        elif kind == "app" and isinstance(n, ast.Return):
+            v = _local_value(u, n.value, cn)
+            f = _local_value(u, v.func, cn) if isinstance(v, ast.Call) else None
+            if isinstance(f, ast.Attribute) and astq.is_self_attr(f, "app"):
+                out.append(cn)
+    return out
 
 
-def _all_paths_refuse(u: Unit, test: Node, label: str, kind: str) -> bool:
-    ref = _refusal_nodes(u, kind)
-    starts = [s for s in u.cfg.succ(test, label) if s not in ref]
-    if not ref:
-        return False
-    if not starts:
-        return True
-    r = u.cfg.reach(starts, avoid_nodes=ref)
-    return u.cfg.exit.id not in r and u.cfg.raise_exit.id not in r
+def _refusal_value(v: ast.AST | None) -> bool:
+    return v is None or astq.is_none(v) or (isinstance(v, ast.Tuple) and bool(v.elts) and all(astq.is_none(x) for x in v.elts))
 
 
-def _none_rule(ctx: Ctx, u: Unit, c: ast.Call) -> tuple[int, int]:
+def _all_paths_refuse(u: Unit, nulls: Nulls, test: Node, label: str, name: str, kind: str) -> bool:
+    return nulls.none_paths_end_in(test, label, name, _refusal_nodes(u, kind))
+
+
+def _null_rule(ctx: Ctx, flow: _Flow, u: Unit) -> tuple[int, int]:
+    """R14.3 for one unit: every possibly-None result of safe_join (or of a helper that hands a safe_join result on,
+    or a parameter a caller binds to one) is known not to be None wherever it is used as a value."""
     cfg, rd = u.cfg, u.rd
-    st = astq.parent(c)
-    tgt = None
-    if isinstance(st, ast.Assign) and st.value is c and len(st.targets) == 1 and isinstance(st.targets[0], ast.Name):
-        tgt = st.targets[0].id
-    elif isinstance(st, ast.AnnAssign) and st.value is c and isinstance(st.target, ast.Name):
-        tgt = st.target.id
-    elif isinstance(st, ast.NamedExpr) and st.value is c:
-        tgt = st.target.id
-    dn = cfg.node_of(c)
-    if tgt is None or dn is None:
-        ctx.ob("R14.3", f"{u.label}: the safe_join result is bound to a name and tested for None", False, f"`{norm(c)}` is used directly in `{norm(st)[:80]}`", u.owner, c, f"{u.label} safe_join unbound")
+    nulls = flow.nulls(u)
+    passes = flow.passes(u)
+    is_sj = _is_safe_join_call(u)
+    want = {"raise": "raise NotFound", "none": "return None / (None, None)", "either": "raise NotFound / return None"}[u.refusal]
+    sources: list[tuple[ast.AST, str]] = []
+    for c in sorted((n for n in own_nodes(u.node) if isinstance(n, ast.Call) and nulls.is_source(n)), key=lambda n: (n.lineno, n.col_offset)):
+        sources.append((c, "safe_join result" if is_sj(c) else f"result of `{norm(c.func)}` (hands a safe_join result or its refusal on)"))
+    for p, a in nulls.param_src.items():
+        sources.append((a, f"parameter `{p}` (bound to a possibly-None safe_join result by a caller)"))
+    if not sources:
         return 0, 0
-    d = next((x for x in rd.gen[dn.id] if x.name == tgt), None)
-    if d is None:
-        raise AnalysisError(f"{u.label}: definition of `{tgt}` not found")
-    tests = []
-    for tn in cfg.tests():
-        if tn.kind != "test":
-            continue
-        lab = _none_test(tn.ast, tgt)
-        if lab is not None and (d in rd.reaching(tn, tgt) or (tn is dn and isinstance(st, ast.NamedExpr))):
-            tests.append((tn, lab))
-    ctx.ob("R14.3", f"{u.label}: the safe_join result `{tgt}` is tested for None", bool(tests), f"{[norm(tn.ast) for tn, _ in tests]}", u.owner, c, f"{u.label} safe_join none test")
-    r = cfg.reach(dn, avoid_edges=tests)
-    test_ids = {tn.id for tn, _ in tests}
-    n_use = 0
-    for nm in own_nodes(u.node):
-        if not (isinstance(nm, ast.Name) and nm.id == tgt and isinstance(nm.ctx, ast.Load)) or u.lambda_param(nm):
-            continue
-        un = cfg.node_of(nm)
-        if un is None or un.id in test_ids or d not in rd.reaching(un, tgt):
-            continue
-        n_use += 1
-        ok = un.id not in r or un is dn
-        p = None if ok else cfg.path(dn, un, avoid_edges=tests)
-        ctx.ob("R14.3", f"{u.label}: `{tgt}` is used only after its `is None` test", ok, f"use in `{un.text()[:70]}`" + ("" if ok else " reachable from the safe_join call without passing the not-None edge: " + (cfg.fmt_path(p) if p else "?")), u.owner, nm, f"{u.label} use of safe_join result in {un.text()[:60]}")
-    for tn, lab in tests:
-        refuse = "F" if lab == "T" else "T"
-        ok = _all_paths_refuse(u, tn, refuse, u.refusal)
-        want = "raise NotFound" if u.refusal == "raise" else "return None / (None, None)"
-        ctx.ob("R14.3", f"{u.label}: a refused path ends in {want}", ok, f"None edge of `{norm(tn.ast)}`", u.owner, tn.ast, f"{u.label} refusal edge")
-    return len(tests), n_use
+    all_defs = [d for ds in rd.gen.values() for d in ds] + list(rd.param_defs)
+    loads = [nm for nm in own_nodes(u.node) if isinstance(nm, ast.Name) and isinstance(nm.ctx, ast.Load) and not u.lambda_param(nm)]
+    handed_on: frozenset[ast.AST] = frozenset()  # still possibly None where it is returned / passed to a followed helper
+    if u.helper:
+        for r in astq.returns_of(u.node):
+            handed_on |= nulls.origins(r.value, cfg.node_of(r))
+    for c in (n for n in own_nodes(u.node) if isinstance(n, ast.Call) and flow.target_of(u, n) is not None):
+        for a in list(c.args) + [k.value for k in c.keywords]:
+            handed_on |= nulls.origins(a, cfg.node_of(c), ancestor_conds(u, a))
+    n_tests = n_use = 0
+    refusals_done: set[tuple[int, str]] = set()
+    for src, what in sources:
+        tag = "safe_join" if isinstance(src, ast.Call) and is_sj(src) else (f"helper {norm(src.func)}" if isinstance(src, ast.Call) else f"param {src.arg}")  # type: ignore[attr-defined]
+        if isinstance(src, ast.Call):
+            pos = position(u, src, passes)
+            if pos == "use" or (pos == "return" and not u.helper):
+                st = astq.parent(src)
+                ctx.ob("R14.3", f"{u.label}: the {what} is bound to a name and tested for None", False, f"`{norm(src)}` is used directly in `{norm(st)[:80]}`", u.owner, src, f"{u.label} {tag} unbound")
+                continue
+        carriers = [d for d in all_defs if src in nulls.def_origins(d)]
+        names = sorted({d.name for d in carriers})
+        # ---- tests
+        tests: list[tuple[Node, str, str]] = []
+        for d in carriers:
+            tests += [e for e in nulls.tests_of(d) if e not in tests]
+        expr_tests: list[tuple[ast.AST, bool]] = []
+        for e in own_nodes(u.node):
+            if isinstance(e, (ast.IfExp, ast.BoolOp)) and not _in_cfg_condition(e):
+                en = cfg.node_of(e)
+                if en is None:
+                    continue
+                for tst, arms in ([(e.test, (True, False))] if isinstance(e, ast.IfExp) else [(v, (isinstance(e.op, ast.And),)) for v in e.values[:-1]]):
+                    for v in arms:
+                        if any(implied(u, tst, v, nm, en) == "nonnull" and any(d.name == nm and (d in rd.reaching(en, nm) or d.node is en) for d in carriers) for nm in names):
+                            expr_tests.append((e, v))
+        if not (src in handed_on and not tests and not expr_tests):  # whoever receives it is obliged instead
+            n_tests += len(tests) + len(expr_tests)
+            ctx.ob("R14.3", f"{u.label}: the {what} `{'/'.join(names) or norm(src)[:40]}` is tested for None", bool(tests or expr_tests), f"{[norm(tn.ast) for tn, _, _ in tests] + [norm(e)[:50] for e, _ in expr_tests]}", u.owner, src, f"{u.label} {tag} none test")
+        # ---- uses
+        for nm in loads:
+            un = cfg.node_of(nm)
+            if un is None or src not in nulls.origins(nm, un, (), guarded=False):
+                continue
+            pos = position(u, nm, passes)
+            if pos in ("test", "bind", "pass", "discard") or (pos == "return" and u.helper):
+                continue
+            n_use += 1
+            conds = ancestor_conds(u, nm)
+            ok = src not in nulls.origins(nm, un, conds)
+            wit = ""
+            if not ok:
+                for d in rd.reaching(un, nm.id):
+                    if src in nulls.def_origins(d) and nulls.unguarded(d, un):
+                        pth = nulls.witness(d, un)
+                        wit = " reachable from the definition without passing a not-None edge: " + (cfg.fmt_path(pth) if pth else "?")
+                        break
+            ctx.ob("R14.3", f"{u.label}: `{nm.id}` is used only after its `is None` test", ok, f"use in `{un.text()[:70]}`" + wit, u.owner, nm, f"{u.label} use of {tag} result in {un.text()[:60]}")
+        # ---- the None edge refuses
+        for tn, lab, var in tests:
+            refuse = "F" if lab == "T" else "T"
+            if (tn.id, refuse) in refusals_done:
+                continue
+            refusals_done.add((tn.id, refuse))
+            ok = _all_paths_refuse(u, nulls, tn, refuse, var, u.refusal)
+            ctx.ob("R14.3", f"{u.label}: a refused path ends in {want}", ok, f"None edge of `{norm(tn.ast)}`", u.owner, tn.ast, f"{u.label} refusal edge")
+        for e, v in expr_tests:
+            if (id(e), str(v)) in refusals_done:  # type: ignore[comparison-overlap]
+                continue
+            refusals_done.add((id(e), str(v)))  # type: ignore[arg-type]
+            if not isinstance(e, ast.IfExp):
+                continue  # `x is not None and f(x)`: the value of the chain is judged where it is used
+            arm = e.orelse if v else e.body
+            if position(u, e) != "return" or u.refusal == "raise":
+                raise AnalysisError(f"{u.label}: the None arm of `{norm(e)[:70]}` is not a returned value: cannot decide where the refusal leads")
+            ctx.ob("R14.3", f"{u.label}: a refused path ends in {want}", _refusal_value(arm), f"None arm of `{norm(e)[:70]}` is `{norm(arm)}`", u.owner, e, f"{u.label} refusal arm")
+    return n_tests, n_use
 
 
-def _fallthrough_rule(ctx: Ctx, units: list[Unit]) -> None:
-    """SharedDataMiddleware.__call__: the opener obtained from a loader may be None (refusal): it is called
-    only under `is not None`, and the None edge falls through to the wrapped application."""
-    u = next((x for x in units if x.owner.name == "__call__" and x.node is x.owner.node), None)
-    if u is None:
-        raise AnalysisError("SharedDataMiddleware.__call__ missing")
-    cfg, rd = u.cfg, u.rd
+def _in_cfg_condition(e: ast.AST) -> bool:
+    """is e (part of) the condition of an if / while statement, which the CFG splits into its atoms?"""
+    cur = e
+    p = astq.parent(cur)
+    while isinstance(p, ast.BoolOp) or (isinstance(p, ast.UnaryOp) and isinstance(p.op, ast.Not)):
+        cur, p = p, astq.parent(p)
+    return isinstance(p, (ast.If, ast.While)) and p.test is cur
+
+
+def _fallthrough_rule(ctx: Ctx, flow: _Flow) -> None:
+    """SharedDataMiddleware: the opener obtained from a loader may be None (refusal): it is called only where it is
+    known not to be None, and the None edge of the deciding test falls through to the wrapped application.  The
+    opener is found by its role - a local callable that came out of a call and is invoked without arguments; when
+    the invocation sits in a followed helper that received the opener as a parameter, the argument is judged at
+    the helper's call sites."""
     n = 0
-    for c in (x for x in own_nodes(u.node) if isinstance(x, ast.Call) and isinstance(x.func, ast.Name)):
-        node = cfg.node_of(c)
-        if node is None:
+
+    def came_out_of_a_call(cu: Unit, nulls: Nulls, e: ast.Name, node: Node) -> bool:
+        return any(isinstance(o, ast.Call) for o in nulls.origins(e, node, (), guarded=False))
+
+    def judge(cu: Unit, nulls: Nulls, e: ast.Name, anchor: ast.Call, node: Node) -> None:
+        cfg = cu.cfg
+        live = nulls.origins(e, node, ancestor_conds(cu, e))
+        deciding: list[tuple[Node, str, str]] = []
+        for d in cu.rd.reaching(node, e.id):
+            for tn, lab, var in nulls.tests_of(d):
+                other = "F" if lab == "T" else "T"
+                if (tn, other, var) not in deciding and node.id in cfg.reach(cfg.succ(tn, lab)) and node.id not in cfg.reach(cfg.succ(tn, other)):
+                    deciding.append((tn, other, var))
+        fact = f"`{norm(anchor)[:60]}` guarded by {[norm(g.ast) for g, _, _ in deciding]}" if not live else f"`{norm(anchor)[:60]}`: a None from {sorted({norm(o)[:40] for o in live})} reaches the call"
+        ctx.ob("R14.3", f"{cu.label}: the opener `{e.id}` is called only when the loader did not refuse", not live, fact, cu.owner, anchor, f"{cu.owner.name} opener call guarded")
+        for tn, other, var in deciding:
+            ok = _all_paths_refuse(cu, nulls, tn, other, var, "app")
+            ctx.ob("R14.3", f"{cu.label}: a refusal falls through to the wrapped application", ok, f"None edge of `{norm(tn.ast)}`", cu.owner, tn.ast, f"{cu.owner.name} fallthrough")
+
+    for u in flow.units:
+        if u.owner.cls is not flow.sdm or u.node is not u.owner.node:
             continue
-        defs = rd.reaching(node, c.func.id)
-        if not any(dd.kind == "unpack" and isinstance(dd.value, ast.Call) for dd in defs):
-            continue
-        nm = c.func.id
-        n += 1
-        guards = [(tn, lab) for tn, lab in cfg.guards(node) if tn.kind == "test" and _none_test(tn.ast, nm) == lab and rd.reaching(tn, nm) == defs]
-        ctx.ob("R14.3", f"__call__: the opener `{nm}` is called only when the loader did not refuse", bool(guards), f"`{norm(c)}` guarded by {[norm(g.ast) for g, _ in guards]}", u.owner, c, "__call__ opener call guarded")
-        for tn, lab in guards:
-            ok = _all_paths_refuse(u, tn, "F" if lab == "T" else "T", "app")
-            ctx.ob("R14.3", "__call__: a refusal falls through to the wrapped application", ok, f"None edge of `{norm(tn.ast)}`", u.owner, tn.ast, "__call__ fallthrough")
-    ctx.floor("R14.3", "opener calls in __call__", n, 1)
+        cfg, rd = u.cfg, u.rd
+        nulls = Nulls(u, lambda c: True, elements=True)
+        for c in sorted((x for x in own_nodes(u.node) if isinstance(x, ast.Call) and isinstance(x.func, ast.Name) and not x.args and not x.keywords), key=lambda x: (x.lineno, x.col_offset)):
+            node = cfg.node_of(c)
+            if node is None or u.lambda_param(c.func):
+                continue
+            if came_out_of_a_call(u, nulls, c.func, node):
+                n += 1
+                judge(u, nulls, c.func, c, node)
+                continue
+            defs = rd.reaching(node, c.func.id)
+            if not defs or not all(d.kind == "param" for d in defs):
+                continue
+            for cu, call, off in flow.sites_of(u):
+                cnode = cu.cfg.node_of(call)
+                cn = Nulls(cu, lambda c: True, elements=True)
+                for pname, arg in flow.bind(u, off, call):
+                    if pname == c.func.id and isinstance(arg, ast.Name) and cnode is not None and came_out_of_a_call(cu, cn, arg, cnode):
+                        n += 1
+                        judge(cu, cn, arg, call, cnode)
+    ctx.floor("R14.3", "opener calls in SharedDataMiddleware", n, 1)
 
 
 # =====================================================================
@@ -644,7 +1466,7 @@ class _Filename:
         self.u = Unit(ctx.repo, fi, fi.node, fi.qualname)
         self.env = env or {}
         self.depth = depth
-        self.subs: list[tuple[ast.Call, RegexConst, str, set[int], set[int]]] = []  # call, regex, name, matched, kept-but-not-allowed
+        self.subs: list[tuple[ast.Call, str, str, int, set[int], int]] = []  # call, description, name, size of the kept alphabet, kept-but-not-allowed, regex flags
         self.strips: list[tuple[ast.Call, str]] = []
         self.memo: dict[tuple[int, int], St] = {}
         ctx.saw(fi)
@@ -742,6 +1564,16 @@ class _Filename:
             self.subs += sub.subs
             self.strips += sub.strips
             return st
+        # re.sub(<regex or pattern>, repl, x): the function spelling of <regex>.sub(repl, x)
+        if fq == "re.sub" and len(e.args) >= 3 and not any(isinstance(a, ast.Starred) for a in e.args):
+            pat = e.args[0]
+            if isinstance(pat, ast.Constant) and isinstance(pat.value, str) and not e.keywords:
+                rx, rname = RegexConst(pat.value, 0), repr(pat.value)
+            else:
+                rx, rname = self.regex(pat)
+            if rx is None:
+                self.fail(e)
+            return self.sub(e, rx, rname, e.args[1], e.args[2], len(e.args) > 3 or bool(e.keywords), node, depth)
         if not isinstance(f, ast.Attribute):
             self.fail(e)
         m = f.attr
@@ -749,23 +1581,25 @@ class _Filename:
         if m == "sub" and len(e.args) >= 2 and not isinstance(f.value, ast.Constant):
             rx, rname = self.regex(f.value)
             if rx is not None:
-                repl = e.args[0]
-                if not (isinstance(repl, ast.Constant) and isinstance(repl.value, str)):
-                    self.fail(e)
-                x = self.val(e.args[1], node, depth)
-                matched, _rep = single_class(rx, 0x110000)
-                bad = {c for c in range(0x110000) if c not in matched and not _allowed_char(c)} if len(matched) < 0x110000 else set()
-                limited = len(e.args) > 2 or bool(e.keywords)
+                return self.sub(e, rx, rname, e.args[0], e.args[1], len(e.args) > 2 or bool(e.keywords), node, depth)
+        # "".join(ch for ch in x if <keep condition on ch>): the comprehension spelling of a deleting substitution
+        if m == "join" and isinstance(f.value, ast.Constant) and f.value.value == "" and len(e.args) == 1 and isinstance(e.args[0], (ast.GeneratorExp, ast.ListComp)):
+            g = e.args[0]
+            gen = g.generators[0]
+            if len(g.generators) == 1 and isinstance(gen.target, ast.Name) and astq.is_name(g.elt, gen.target.id) and gen.ifs:
+                x = self.val(gen.iter, node, depth)
+                kept: set[int] | None = None
+                for cond in gen.ifs:
+                    k = self.kept(cond, gen.target.id)
+                    if k is None:
+                        self.fail(cond)
+                    kept = k if kept is None else kept & k
+                assert kept is not None
+                bad = {c for c in kept if not _allowed_char(c)}
                 if not any(c is e for c, *_ in self.subs):
-                    self.subs.append((e, rx, rname, matched, bad))
-                clean = not bad and not limited and not (rx.flags & re.I)
-                filtered = (x.filtered or clean) and _allowed_str(repl.value)
-                dots_gone = ord(".") in matched and not limited
-                if repl.value == "":
-                    nodot = dots_gone
-                    return St(filtered, nodot, "" if nodot else f"`{rname}.sub('', ...)` deletes characters and can expose a '.'")
-                nodot = (dots_gone or x.nodot) and not repl.value.startswith(".")
-                return St(filtered, nodot, "" if nodot else (x.lost or f"replacement {repl.value!r}"))
+                    self.subs.append((e, f"filter `{' and '.join(norm(c) for c in gen.ifs)[:60]}`", "the character filter", len(kept), bad, 0))
+                nodot = ord(".") not in kept
+                return St(x.filtered or not bad, nodot, "" if nodot else "the character filter deletes characters and can expose a '.'")
         x = self.val(f.value, node, depth) if not isinstance(f.value, ast.Constant) else None
         if x is not None and not x.pieces:
             if m in ("encode", "decode"):
@@ -804,6 +1638,61 @@ class _Filename:
             return St(lst.filtered and _allowed_str(sep), lst.nodot, lst.lost)
         self.fail(e)
 
+    def sub(self, e: ast.Call, rx: RegexConst, rname: str, repl: ast.AST, target: ast.AST, limited: bool, node: Node | None, depth: int) -> St:
+        if not (isinstance(repl, ast.Constant) and isinstance(repl.value, str)):
+            self.fail(e)
+        x = self.val(target, node, depth)
+        matched, _rep = single_class(rx, 0x110000)
+        bad = {c for c in range(0x110000) if c not in matched and not _allowed_char(c)} if len(matched) < 0x110000 else set()
+        # a substitution that deletes, or whose kept alphabet is allowed, is (a candidate for) the filter the result
+        # relies on; any other one (`\s+` -> "_") only rewrites characters and is judged by what it inserts
+        if (repl.value == "" or not bad) and not any(c is e for c, *_ in self.subs):
+            self.subs.append((e, f"pattern {rx.pattern!r}", rname, 0x110000 - len(matched), bad, rx.flags))
+        clean = not bad and not limited and not (rx.flags & re.I)
+        filtered = (x.filtered or clean) and _allowed_str(repl.value)
+        dots_gone = ord(".") in matched and not limited
+        if repl.value == "":
+            nodot = dots_gone
+            return St(filtered, nodot, "" if nodot else f"`{rname}.sub('', ...)` deletes characters and can expose a '.'")
+        nodot = (dots_gone or x.nodot) and not repl.value.startswith(".")
+        return St(filtered, nodot, "" if nodot else (x.lost or f"replacement {repl.value!r}"))
+
+    def kept(self, cond: ast.AST, var: str) -> set[int] | None:
+        """the characters a keep-condition on the one-character variable lets through, or None (not understood):
+        `not R.match(ch)` / `R.match(ch) is None` / `not R.search(ch)` for a single-class regex R,
+        `ch in <constant string / set>` and their negations."""
+        if isinstance(cond, ast.UnaryOp) and isinstance(cond.op, ast.Not):
+            k = self.kept(cond.operand, var)
+            return None if k is None else set(range(0x110000)) - k
+        if isinstance(cond, ast.Compare) and len(cond.ops) == 1:
+            a, op, b = cond.left, cond.ops[0], cond.comparators[0]
+            if isinstance(op, (ast.Is, ast.IsNot)) and astq.is_none(b):
+                k = self.kept(a, var)
+                return None if k is None else (set(range(0x110000)) - k if isinstance(op, ast.Is) else k)
+            if isinstance(op, (ast.In, ast.NotIn)) and astq.is_name(a, var):
+                try:
+                    v = self.folder.expr(self.fi.module, b)
+                except Exception:  # noqa: BLE001 - not a constant of the module
+                    return None
+                if isinstance(v, str):
+                    chars = {ord(c) for c in v}
+                elif isinstance(v, (set, frozenset, tuple, list)) and all(isinstance(c, str) and len(c) == 1 for c in v):
+                    chars = {ord(c) for c in v}
+                else:
+                    return None
+                return chars if isinstance(op, ast.In) else set(range(0x110000)) - chars
+            return None
+        if isinstance(cond, ast.Call) and isinstance(cond.func, ast.Attribute) and cond.func.attr in ("match", "search", "fullmatch") and len(cond.args) == 1 and astq.is_name(cond.args[0], var) and not cond.keywords:
+            rx, _nm = self.regex(cond.func.value)
+            if rx is None or rx.flags & re.I:
+                return None
+            try:
+                matched, rep_ = single_class(rx, 0x110000)
+            except Exception:  # noqa: BLE001 - not a single class
+                return None
+            return matched if rep_[0] >= 1 else None
+        return None
+
     def regex(self, e: ast.AST) -> tuple[RegexConst | None, str]:
         d = dotted(e)
         if d is None:
@@ -833,10 +1722,10 @@ def _secure_filename_rule(ctx: Ctx) -> None:
                f"`{norm(r)}`: " + ("every definition chain passes a whole-string regex deletion with an allowed kept alphabet" if st.filtered else "some definition chain reaches the return without a whole-string regex deletion whose kept alphabet is ASCII without separators / whitespace"), fi, r, f"secure_filename {tag} filtered")
         ctx.ob("R14.4", "the returned filename cannot start with '.': a strip of a set containing '.' follows every character-deleting step", st.nodot,
                f"`{norm(r)}`: " + ("strip(<set with '.'>) is applied after the last deleting operation; later edits only prepend non-dot characters" if st.nodot else f"after the last strip of '.', {st.lost}"), fi, r, f"secure_filename {tag} leading dot")
-    for c, rx, name, matched, bad in an.subs:
+    for c, descr, name, n_kept, bad, flags in an.subs:
         sample = "".join(chr(x) for x in sorted(bad)[:8])
-        ctx.ob("R14.4", f"the alphabet kept by `{name}` is ASCII without '/', '\\' and whitespace", not bad, f"pattern {rx.pattern!r} keeps {0x110000 - len(matched)} code points" + (f", not allowed: {sample!r}{'...' if len(bad) > 8 else ''} ({len(bad)})" if bad else ", all allowed"), fi, c, f"secure_filename kept alphabet {name}")
-        ctx.ob("R14.4", f"`{name}` is case-sensitive (no re.IGNORECASE widening of the kept alphabet)", not (rx.flags & re.I), f"flags={rx.flags}", fi, c, f"secure_filename regex flags {name}")
+        ctx.ob("R14.4", f"the alphabet kept by `{name}` is ASCII without '/', '\\' and whitespace", not bad, f"{descr} keeps {n_kept} code points" + (f", not allowed: {sample!r}{'...' if len(bad) > 8 else ''} ({len(bad)})" if bad else ", all allowed"), fi, c, f"secure_filename kept alphabet {name}")
+        ctx.ob("R14.4", f"`{name}` is case-sensitive (no re.IGNORECASE widening of the kept alphabet)", not (flags & re.I), f"flags={flags}", fi, c, f"secure_filename regex flags {name}")
     ctx.note(f"R14.4: {len(an.subs)} deleting regex substitution(s) and {len(an.strips)} strip(<set with '.'>) call(s) on the returned value's chain")
 
 
@@ -844,10 +1733,10 @@ def _secure_filename_rule(ctx: Ctx) -> None:
 
 
 def run(ctx: Ctx) -> None:
-    ctx.rule("R14.1", "safe_join: every appended component is an element of *pathnames that passed, after posixpath.normpath and on the same variable, reject tests covering 'starts with /', '== ..', 'starts with ../' (and alternative separators); reject edges return None; the result joins the trusted directory with survivors only")
-    ctx.rule("R14.2", "every filesystem sink in send_from_directory / SharedDataMiddleware receives only trusted configuration or safe_join(<trusted base>, ...) results, never the raw request-derived name; a safe_join result that passes through anything but a copy, a selection or os.path.join with trusted operands after the containment check is no longer trusted")
-    ctx.rule("R14.3", "every safe_join result is tested for None before any use; the None edge ends in NotFound / (None, None); SharedDataMiddleware.__call__ calls the opener only when it is not None and otherwise falls through to the wrapped app")
-    ctx.rule("R14.4", "secure_filename: the returned value passed a regex deletion whose kept alphabet is ASCII without separators and whitespace, and strip(<set containing '.'>) follows every operation that can delete characters")
+    ctx.rule("R14.1", "safe_join: every component that enters the result is an element of *pathnames (all are traversed) that passed, after posixpath.normpath and on the same value, reject tests covering 'starts with /', '== ..', 'starts with ../' (and alternative separators); reject edges end in return None; the result joins the trusted directory with survivors only")
+    ctx.rule("R14.2", "every filesystem sink reached from send_from_directory / SharedDataMiddleware (nested callables, closures and followed helpers included) receives only trusted configuration or safe_join(<trusted base>, ...) results, never the raw request-derived name; a safe_join result that passes through anything but a copy, a selection or os.path.join with trusted operands after the containment check is no longer trusted")
+    ctx.rule("R14.3", "the None of a refusing safe_join never reaches a use of the result: every path from a definition that may hold it to a use passes the not-None edge of a test about that value, and the None edge ends in NotFound / None / (None, None); SharedDataMiddleware calls the opener only where it cannot be None and otherwise falls through to the wrapped app")
+    ctx.rule("R14.4", "secure_filename: the returned value passed a character filter (regex substitution or filtering comprehension) whose kept alphabet is ASCII without separators and whitespace, and strip(<set containing '.'>) follows every operation that can delete characters")
     _safe_join_rule(ctx)
     _sinks_rule(ctx)
     _secure_filename_rule(ctx)
